@@ -1,25 +1,36 @@
 (* TlsFacts: thread_local! / lazy_static! bookkeeping over whole runs.
 
    Contents
-     0. the TLS/lazy "view" of a state: tsig (body and initialised keys of
-        every thread), inits (the LInitTls / LInitLazy entries of the log),
-        e_lazy; veq (same view)
+     0. the TLS/lazy "view" of a state: tsig (body, initialised keys and the
+        MLazyGetY / MLazyFinishY micro-operations still in the continuation
+        of every thread), inits (the LInitTls / LInitLazy / LDropLazy entries
+        of the log), e_lazy, e_bodies; veq (same view)
      1. framing lemmas in continuation style for every helper of Ops.v and
         for schedule
-     2. tstep e e': the five ways in which a micro-operation can change the
-        view (nothing, spawn, first use of a thread-local, initialisation of a
-        lazy static, shutdown of the registry); exec_micro_tstep: every
-        micro-operation (successful or panicking) makes one such step
+     2. tstep e e': the five ways in which a micro-operation other than
+        MLazyGetY / MLazyFinishY can change the view (nothing, spawn, first
+        use of a thread-local, initialisation of a lazy static, shutdown of
+        the registry); exec_micro_tstep
         ([destruct m; tl_tac], MSpawn / MSpawnW / MTlsWith / MLazyGet /
-        MLazyDrop / MDropLocals by hand)
-     3. the invariant tl_inv and its preservation: tstep_inv, exec_micro_inv,
-        steps_inv, run_inv, init_exec_inv
+        MLazyDrop / MDropLocals by hand);
+        ystep e e': the four outcomes of a step of Scheduler::run that
+        executes MLazyGetY / MLazyFinishY (lazy static with a yielding
+        initialiser), pop included: getY_ystep, finY_ystep; getY_init_ok
+        (the initialiser itself cannot panic)
+     3. the invariant tl_inv and its preservation: tstep_inv, ystep_inv,
+        exec_micro_inv, step_inv, steps_inv, run_inv, init_exec_inv;
+        expand_prog_ykeys (the only such micro-operation of an expanded
+        program is MLazyGetY 2)
      4. thread-locals: run_tls_nodup, run_tls_count, tls_init_le_threads,
         tls_init_once, tls_init_twice (the counterexample to the statement
         without side condition)
-     5. lazy statics: run_lazy_nodup, lazy_init_once, lazy_none_stays,
-        steps_lazy_none, lazy_get_after_shutdown, lazy_get_acquires,
-        lazy_init_publishes, lazy_registry_grows, lazy_handover_global
+     5. lazy statics: run_lazy_nodup = lazy_registered_once,
+        run_lazy_balance, run_lazy_balance_shut, run_lazy_all_dropped,
+        run_lazy_count / lazy_init_once (keys other than 2),
+        lazy_yielding_init_runs_twice (the counterexample for key 2),
+        lazy_none_stays, steps_lazy_none, lazy_get_after_shutdown,
+        lazy_get_acquires, lazy_init_publishes, lazy_finish_publishes,
+        lazy_handover_global, lazyY_handover_global
 
    DEVIATIONS from the requested statements: see the end of the file. *)
 Require Import LV.Base LV.VV LV.VVFacts LV.Path LV.PathSpec LV.PathApi LV.Prog LV.Objects
@@ -31,21 +42,37 @@ Import ListNotations.
 (* 0. The view                                                         *)
 (* ================================================================== *)
 
-Definition bt (t : thread) : nat * list nat := (t_body t, t_tls t).
-Definition tsig (e : exec) : list (nat * list nat) := map bt (e_threads e).
+(* the lazy-static micro-operations with a yielding initialiser that a
+   continuation still holds: (false, k) for MLazyGetY k (an access not yet
+   begun), (true, k) for MLazyFinishY k _ (an initialiser of k in flight: its
+   value is built, LInitLazy k is logged, the registration is still to come) *)
+Definition ykey (m : micro) : list (bool * nat) :=
+  match m with
+  | MLazyGetY k => [(false, k)]
+  | MLazyFinishY k _ => [(true, k)]
+  | _ => []
+  end.
+Definition ykeys (c : list micro) : list (bool * nat) := flat_map ykey c.
+
+Lemma ykeys_app a b : ykeys (a ++ b) = ykeys a ++ ykeys b.
+Proof. unfold ykeys. apply flat_map_app. Qed.
+
+Definition tview : Type := nat * (list nat * list (bool * nat)).
+Definition bt (t : thread) : tview := (t_body t, (t_tls t, ykeys (t_cont t))).
+Definition tsig (e : exec) : list tview := map bt (e_threads e).
 
 Definition is_init (l : logline) : bool :=
-  match l with LInitTls _ _ | LInitLazy _ => true | _ => false end.
+  match l with LInitTls _ _ | LInitLazy _ | LDropLazy _ => true | _ => false end.
 Definition inits (e : exec) : list logline := filter is_init (e_log e).
 
 Definition veq (e0 e : exec) : Prop :=
-  tsig e = tsig e0 /\ inits e = inits e0 /\ e_lazy e = e_lazy e0.
+  tsig e = tsig e0 /\ inits e = inits e0 /\ e_lazy e = e_lazy e0 /\ e_bodies e = e_bodies e0.
 
 Lemma veq_refl e : veq e e.
 Proof. repeat split. Qed.
 
 Lemma veq_trans e0 e1 e2 : veq e0 e1 -> veq e1 e2 -> veq e0 e2.
-Proof. intros (A1 & A2 & A3) (B1 & B2 & B3). repeat split; congruence. Qed.
+Proof. intros (A1 & A2 & A3 & A4) (B1 & B2 & B3 & B4). repeat split; congruence. Qed.
 
 Lemma veq_k e0 e e' : veq e e' -> veq e0 e -> veq e0 e'.
 Proof. intros H1 H0. eapply veq_trans; eassumption. Qed.
@@ -55,13 +82,14 @@ Proof. intros H1 H0. eapply veq_trans; eassumption. Qed.
 (* ================================================================== *)
 
 Lemma veq_same e e' :
-  e_threads e' = e_threads e -> e_log e' = e_log e -> e_lazy e' = e_lazy e -> veq e e'.
-Proof. intros Ht Hl Hz. unfold veq, tsig, inits. rewrite Ht, Hl, Hz. auto. Qed.
+  e_threads e' = e_threads e -> e_log e' = e_log e -> e_lazy e' = e_lazy e ->
+  e_bodies e' = e_bodies e -> veq e e'.
+Proof. intros Ht Hl Hz Hb. unfold veq, tsig, inits. rewrite Ht, Hl, Hz, Hb. auto. Qed.
 
 Lemma veq_same_k e0 e e' :
   e_threads e' = e_threads e -> e_log e' = e_log e -> e_lazy e' = e_lazy e ->
-  veq e0 e -> veq e0 e'.
-Proof. intros Ht Hl Hz. apply veq_k, veq_same; assumption. Qed.
+  e_bodies e' = e_bodies e -> veq e0 e -> veq e0 e'.
+Proof. intros Ht Hl Hz Hb. apply veq_k, veq_same; assumption. Qed.
 
 Lemma map_list_set (A B : Type) (g : A -> B) (l : list A) i x :
   map g (list_set l i x) = list_set (map g l) i (g x).
@@ -91,11 +119,25 @@ Proof.
 Qed.
 
 Lemma veq_set_threads e ths : map bt ths = map bt (e_threads e) -> veq e (ex_set_threads e ths).
-Proof. intros H. unfold veq, tsig, inits. cbn [ex_set_threads e_threads e_log e_lazy]. auto. Qed.
+Proof. intros H. unfold veq, tsig, inits. cbn [ex_set_threads e_threads e_log e_lazy e_bodies]. auto. Qed.
 
 Lemma veq_upd_thread_k e0 e i f :
   (forall t, bt (f t) = bt t) -> veq e0 e -> veq e0 (upd_thread e i f).
 Proof. intros Hf. apply veq_k. apply veq_set_threads. apply map_bt_list_upd, Hf. Qed.
+
+(* pushing micro-operations other than MLazyGetY / MLazyFinishY *)
+Lemma veq_push_cont_k e0 e me ms : ykeys ms = [] -> veq e0 e -> veq e0 (push_cont e me ms).
+Proof.
+  intros Hy. unfold push_cont. apply veq_upd_thread_k. intros t.
+  unfold bt, th_set_cont. cbn [t_body t_tls t_cont]. rewrite ykeys_app, Hy. reflexivity.
+Qed.
+
+Ltac yk_tac :=
+  cbv zeta;
+  repeat match goal with
+         | |- context [if ?c then _ else _] => destruct c
+         | |- context [match ?x with _ => _ end] => destruct x
+         end; reflexivity.
 
 Lemma veq_mapi_k e0 e g :
   (forall id t, bt (g id t) = bt t) -> veq e0 e ->
@@ -119,7 +161,7 @@ Qed.
 Lemma veq_log_k e0 e l :
   (forall x, In x l -> is_init x = false) -> veq e0 e -> veq e0 (ex_set_log e (l ++ e_log e)).
 Proof.
-  intros Hl. apply veq_k. unfold veq, tsig, inits. cbn [ex_set_log e_threads e_log e_lazy].
+  intros Hl. apply veq_k. unfold veq, tsig, inits. cbn [ex_set_log e_threads e_log e_lazy e_bodies].
   rewrite filter_app_none by exact Hl. auto.
 Qed.
 
@@ -281,7 +323,7 @@ Ltac vclose_step :=
   | |- veq _ (fold_left _ _ _) => apply veq_fold_unpark_k
   | |- veq _ (map_others _ _ _ _) => apply veq_map_others_k; [bt_tac|]
   | |- veq _ (set_caus _ _ _) => apply veq_set_caus_k
-  | |- veq _ (push_cont _ _ _) => apply veq_upd_thread_k; [bt_tac|]
+  | |- veq _ (push_cont _ _ _) => apply veq_push_cont_k; [yk_tac|]
   | |- veq _ (push_guard _ _ _ _) => apply veq_upd_thread_k; [bt_tac|]
   | |- veq _ (drop_guard _ _ _ _) => apply veq_upd_thread_k; [bt_tac|]
   | |- veq _ (causality_inc _ _) => apply veq_upd_thread_k; [bt_tac|]
@@ -357,7 +399,7 @@ Ltac tl_tac :=
 (* the micro-operations that do not touch the view *)
 Definition view_neutral (m : micro) : Prop :=
   match m with
-  | MSpawn _ | MSpawnW _ _ _ | MTlsWith _ | MLazyGet _ | MLazyDrop => False
+  | MSpawn _ | MSpawnW _ _ _ | MTlsWith _ | MLazyGet _ | MLazyGetY _ | MLazyFinishY _ _ | MLazyDrop => False
   | _ => True
   end.
 
@@ -386,39 +428,50 @@ Proof.
 Qed.
 
 (* ---- the view-changing steps ---- *)
+
+(* the keys (below 8) whose values the shutdown destroys *)
+Definition dkeys (lz : list (nat * (nat * vv))) : list nat :=
+  filter (fun k => existsb (fun x => Nat.eqb (fst x) k) lz) (seq 0 8).
+
 Inductive tstep (e e' : exec) : Prop :=
   | ts_same : veq e e' -> tstep e e'
   | ts_spawn b :
-      tsig e' = tsig e ++ [(b, [])] -> inits e' = inits e -> e_lazy e' = e_lazy e -> tstep e e'
-  | ts_tls i b l k :
-      nth_error (tsig e) i = Some (b, l) -> ~ In k l ->
-      tsig e' = list_set (tsig e) i (b, l ++ [k]) ->
-      inits e' = LInitTls k b :: inits e -> e_lazy e' = e_lazy e -> tstep e e'
+      tsig e' = tsig e ++ [(b, ([], ykeys (nth b (e_bodies e) [])))] -> inits e' = inits e ->
+      e_lazy e' = e_lazy e -> e_bodies e' = e_bodies e -> tstep e e'
+  | ts_tls i b l y k :
+      nth_error (tsig e) i = Some (b, (l, y)) -> ~ In k l ->
+      tsig e' = list_set (tsig e) i (b, (l ++ [k], y)) ->
+      inits e' = LInitTls k b :: inits e -> e_lazy e' = e_lazy e -> e_bodies e' = e_bodies e ->
+      tstep e e'
   | ts_lazy lz k x :
       e_lazy e = Some lz -> ~ In k (map fst lz) -> e_lazy e' = Some (lz ++ [(k, x)]) ->
-      inits e' = LInitLazy k :: inits e -> tsig e' = tsig e -> tstep e e'
-  | ts_drop :
-      e_lazy e' = None -> inits e' = inits e -> tsig e' = tsig e -> tstep e e'.
+      inits e' = LInitLazy k :: inits e -> tsig e' = tsig e -> e_bodies e' = e_bodies e ->
+      tstep e e'
+  | ts_drop lz :
+      e_lazy e = Some lz -> e_lazy e' = None ->
+      inits e' = rev (map LDropLazy (dkeys lz)) ++ inits e -> tsig e' = tsig e ->
+      e_bodies e' = e_bodies e -> tstep e e'.
 
 Lemma tstep_veq_r e e1 e' : tstep e e1 -> veq e1 e' -> tstep e e'.
 Proof.
-  intros H (V1 & V2 & V3). destruct H as [Hv|b H1 H2 H3|i b l k H1 H2 H3 H4 H5|lz k x H1 H2 H3 H4 H5|H1 H2 H3].
+  intros H (V1 & V2 & V3 & V4).
+  destruct H as [Hv|b H1 H2 H3 H4|i b l y k H1 H2 H3 H4 H5 H6|lz k x H1 H2 H3 H4 H5 H6|lz H1 H2 H3 H4 H5].
   - apply ts_same. eapply veq_trans; [exact Hv|]. repeat split; assumption.
   - apply ts_spawn with (b := b); congruence.
-  - apply ts_tls with (i := i) (b := b) (l := l) (k := k); try assumption; congruence.
+  - apply ts_tls with (i := i) (b := b) (l := l) (y := y) (k := k); try assumption; congruence.
   - apply ts_lazy with (lz := lz) (k := k) (x := x); try assumption; congruence.
-  - apply ts_drop; congruence.
+  - apply ts_drop with (lz := lz); try assumption; congruence.
 Qed.
 
 Lemma tstep_veq_l e e1 e' : veq e e1 -> tstep e1 e' -> tstep e e'.
 Proof.
-  intros (V1 & V2 & V3) H.
-  destruct H as [Hv|b H1 H2 H3|i b l k H1 H2 H3 H4 H5|lz k x H1 H2 H3 H4 H5|H1 H2 H3].
+  intros (V1 & V2 & V3 & V4) H.
+  destruct H as [Hv|b H1 H2 H3 H4|i b l y k H1 H2 H3 H4 H5 H6|lz k x H1 H2 H3 H4 H5 H6|lz H1 H2 H3 H4 H5].
   - apply ts_same. eapply veq_trans; [|exact Hv]. repeat split; assumption.
   - apply ts_spawn with (b := b); congruence.
-  - eapply ts_tls with (i := i) (b := b) (l := l) (k := k); try assumption; congruence.
+  - eapply ts_tls with (i := i) (b := b) (l := l) (y := y) (k := k); try assumption; congruence.
   - eapply ts_lazy with (lz := lz) (k := k) (x := x); try assumption; congruence.
-  - apply ts_drop; congruence.
+  - apply ts_drop with (lz := lz); try assumption; congruence.
 Qed.
 
 Lemma existsb_eqb_false k l : existsb (Nat.eqb k) l = false -> ~ In k l.
@@ -439,6 +492,22 @@ Lemma find_key_none (B : Type) k (lz : list (nat * B)) :
 Proof.
   intros H Hin. apply in_map_iff in Hin. destruct Hin as (x & Hx & Hin).
   pose proof (find_none _ _ H x Hin) as Hf. cbv beta in Hf. rewrite Hx, Nat.eqb_refl in Hf. discriminate.
+Qed.
+
+Lemma find_key_some (B : Type) k (lz : list (nat * B)) x :
+  find (fun x => Nat.eqb (fst x) k) lz = Some x -> In k (map fst lz).
+Proof.
+  intros H. apply find_some in H. destruct H as [Hin Hk]. apply Nat.eqb_eq in Hk. subst k.
+  apply in_map. exact Hin.
+Qed.
+
+(* the waker substitution of block_on does not touch the lazy-static micro-operations *)
+Lemma ykeys_subst_waker n k c : forall u, ykeys (subst_waker n k u c) = ykeys c.
+Proof.
+  induction c as [|m c IH]; intros u; [reflexivity|].
+  destruct m; cbn [subst_waker]; try (change (ykeys (?a :: ?b)) with (ykey a ++ ykeys b); rewrite IH; reflexivity).
+  - destruct u; change (ykeys (?a :: ?b)) with (ykey a ++ ykeys b); rewrite IH; reflexivity.
+  - destruct u; change (ykeys (?a :: ?b)) with (ykey a ++ ykeys b); rewrite IH; reflexivity.
 Qed.
 
 (* MSpawn *)
@@ -469,7 +538,11 @@ Proof.
       set (nt := t); set (e1 := ex_set_threads e0 (e_threads e0 ++ [nt])) end.
     eapply tstep_veq_r with (e1 := e1).
     + apply ts_spawn with (b := b); try reflexivity.
-      unfold e1, tsig. cbn [ex_set_threads e_threads]. rewrite map_app. reflexivity.
+      unfold e1, tsig. cbn [ex_set_threads e_threads]. rewrite map_app. cbn [map].
+      assert (Hnt : bt nt = (b, ([], ykeys (nth b (e_bodies e) [])))).
+      { unfold nt, bt, th_set_dpor, th_set_caus, thread_new. cbn [t_body t_tls t_cont].
+        rewrite ykeys_subst_waker. reflexivity. }
+      rewrite Hnt. reflexivity.
     + vclose.
 Qed.
 
@@ -480,22 +553,30 @@ Proof.
   destruct (existsb (Nat.eqb k) (t_tls t)) eqn:Hk; cbn [res_exec].
   - apply ts_same. vclose.
   - match goal with |- tstep _ (log_op ?E _ _) => eapply tstep_veq_r with (e1 := E); [|vclose] end.
-    apply ts_tls with (i := me) (b := t_body t) (l := t_tls t) (k := k).
+    apply ts_tls with (i := me) (b := t_body t) (l := t_tls t) (y := ykeys (t_cont t)) (k := k).
     + unfold tsig. rewrite nth_error_map. unfold get_thread in Ht. rewrite Ht. reflexivity.
     + apply existsb_eqb_false, Hk.
     + unfold tsig, upd_thread. cbn [ex_set_threads ex_set_log e_threads].
       unfold list_upd. unfold get_thread in Ht. rewrite Ht. rewrite map_list_set. reflexivity.
     + reflexivity.
     + reflexivity.
+    + reflexivity.
+Qed.
+
+Lemma filter_all_true (A : Type) (f : A -> bool) l : (forall x, In x l -> f x = true) -> filter f l = l.
+Proof.
+  induction l as [|h t IH]; intros H; cbn [filter]; [reflexivity|].
+  rewrite (H h (or_introl eq_refl)). f_equal. apply IH. intros x Hx. apply H. right. exact Hx.
 Qed.
 
 (* MLazyDrop *)
 Lemma lazy_drop_tstep e me : tstep e (res_exec (exec_micro e me MLazyDrop)).
 Proof.
   cbn [exec_micro]. destruct (e_lazy e) as [lz|] eqn:Hl; cbn [res_exec]; [|apply ts_same, veq_refl].
-  apply ts_drop; try reflexivity.
-  unfold inits. cbn [ex_set_lazy ex_set_log e_log].
-  apply filter_app_none. apply in_rev_map_not_init. reflexivity.
+  apply ts_drop with (lz := lz); try reflexivity; [exact Hl|].
+  unfold inits. cbn [ex_set_lazy ex_set_log e_log]. rewrite filter_app. f_equal.
+  apply filter_all_true. intros x Hx. apply in_rev in Hx. apply in_map_iff in Hx.
+  destruct Hx as (a & <- & _). reflexivity.
 Qed.
 
 (* MLazyGet: the tail after the registry lookup (the read of the cell) *)
@@ -563,7 +644,7 @@ Lemma lazy_lookup_tstep e me k lz e1 ci :
               e1 = set_caus e me (sync_load (caus_of e me) sy Acquire)) \/
   (find (fun x => Nat.eqb (fst x) k) lz = None /\
    exists sy, e_lazy e1 = Some (lz ++ [(k, (ci, sy))]) /\
-              inits e1 = LInitLazy k :: inits e /\ tsig e1 = tsig e).
+              inits e1 = LInitLazy k :: inits e /\ tsig e1 = tsig e /\ e_bodies e1 = e_bodies e).
 Proof.
   intros Hl H. unfold lazy_lookup in H.
   destruct (find (fun x => Nat.eqb (fst x) k) lz) as [[k' [ci' sy]]|] eqn:Hf.
@@ -574,11 +655,12 @@ Proof.
     repeat match type of H with
            | match ?x with _ => _ end = _ => destruct x eqn:?; try discriminate H
            end.
-    injection H as <- <-. eexists. split; [reflexivity|]. split.
+    injection H as <- <-. eexists. split; [reflexivity|]. split; [|split].
     + unfold inits. reflexivity.
     + unfold tsig. cbn [set_caus upd_thread ex_set_threads ex_set_lazy upd_object ex_set_objects
                           causality_inc ex_set_log e_threads].
       rewrite !map_bt_list_upd by bt_tac. reflexivity.
+    + reflexivity.
 Qed.
 
 Lemma lazy_get_tstep e me k : tstep e (res_exec (exec_micro e me (MLazyGet k))).
@@ -586,16 +668,179 @@ Proof.
   rewrite exec_micro_lazy_get. destruct (e_lazy e) as [lz|] eqn:Hl; cbn [res_exec]; [|apply ts_same, veq_refl].
   destruct (lazy_lookup e me k lz) as [[e1 ci]|p] eqn:Hlk; cbn [res_exec]; [|apply ts_same, veq_refl].
   eapply tstep_veq_r; [|apply lazy_tail_veq].
-  destruct (lazy_lookup_tstep e me k lz e1 ci Hl Hlk) as [(sy & _ & ->)|(Hf & sy & H1 & H2 & H3)].
+  destruct (lazy_lookup_tstep e me k lz e1 ci Hl Hlk) as [(sy & _ & ->)|(Hf & sy & H1 & H2 & H3 & H4)].
   - apply ts_same. vclose.
   - eapply ts_lazy; try eassumption. apply find_key_none, Hf.
 Qed.
 
-Theorem exec_micro_tstep e me m : tstep e (res_exec (exec_micro e me m)).
+(* every micro-operation but the two of a yielding initialiser *)
+Theorem exec_micro_tstep e me m : ykey m = [] -> tstep e (res_exec (exec_micro e me m)).
 Proof.
-  destruct m; try (apply ts_same, exec_micro_veq; exact I);
+  intros Hy.
+  destruct m; try discriminate Hy; try (apply ts_same, exec_micro_veq; exact I);
     first [ apply spawn_tstep | apply spawnw_tstep | apply tls_with_tstep
           | apply lazy_get_tstep | apply lazy_drop_tstep ].
+Qed.
+
+(* ---- MLazyGetY / MLazyFinishY: the steps of Scheduler::run that execute them ----
+   The micro-operation is taken off the continuation (which changes the view)
+   and executed; the four outcomes, as changes of the view of thread i:
+     ys_skip   MLazyGetY k finds the registry shut (panic) or k registered
+               (continues with MLazyGet k)
+     ys_init   MLazyGetY k runs the initialiser: LInitLazy k is logged and
+               MLazyFinishY k _ is pushed behind the yield
+     ys_reg    MLazyFinishY k _ registers k (nobody else did meanwhile)
+     ys_lose   MLazyFinishY k _ finds k registered by another thread, or the
+               registry shut: the value built by this thread is dropped *)
+Inductive ystep (e e' : exec) : Prop :=
+  | ys_skip i b l k y :
+      nth_error (tsig e) i = Some (b, (l, (false, k) :: y)) ->
+      tsig e' = list_set (tsig e) i (b, (l, y)) -> inits e' = inits e ->
+      e_lazy e' = e_lazy e -> e_bodies e' = e_bodies e -> ystep e e'
+  | ys_init i b l k y :
+      nth_error (tsig e) i = Some (b, (l, (false, k) :: y)) ->
+      tsig e' = list_set (tsig e) i (b, (l, (true, k) :: y)) -> inits e' = LInitLazy k :: inits e ->
+      e_lazy e' = e_lazy e -> e_bodies e' = e_bodies e -> ystep e e'
+  | ys_reg i b l k y lz x :
+      nth_error (tsig e) i = Some (b, (l, (true, k) :: y)) ->
+      e_lazy e = Some lz -> ~ In k (map fst lz) -> e_lazy e' = Some (lz ++ [(k, x)]) ->
+      tsig e' = list_set (tsig e) i (b, (l, y)) -> inits e' = inits e ->
+      e_bodies e' = e_bodies e -> ystep e e'
+  | ys_lose i b l k y :
+      nth_error (tsig e) i = Some (b, (l, (true, k) :: y)) ->
+      match e_lazy e with Some lz => In k (map fst lz) | None => True end ->
+      tsig e' = list_set (tsig e) i (b, (l, y)) -> inits e' = LDropLazy k :: inits e ->
+      e_lazy e' = e_lazy e -> e_bodies e' = e_bodies e -> ystep e e'.
+
+Lemma ystep_veq_r e e1 e' : ystep e e1 -> veq e1 e' -> ystep e e'.
+Proof.
+  intros H (V1 & V2 & V3 & V4).
+  destruct H as [i b l k y H1 H2 H3 H4 H5|i b l k y H1 H2 H3 H4 H5
+                |i b l k y lz x H1 H2 H3 H4 H5 H6 H7|i b l k y H1 H2 H3 H4 H5 H6].
+  - apply ys_skip with (i := i) (b := b) (l := l) (k := k) (y := y); congruence.
+  - apply ys_init with (i := i) (b := b) (l := l) (k := k) (y := y); congruence.
+  - apply ys_reg with (i := i) (b := b) (l := l) (k := k) (y := y) (lz := lz) (x := x);
+      try assumption; congruence.
+  - apply ys_lose with (i := i) (b := b) (l := l) (k := k) (y := y); try assumption; congruence.
+Qed.
+
+(* the view after the pop, and after a push *)
+Lemma tsig_pop e me t rest :
+  nth_error (e_threads e) me = Some t ->
+  tsig (upd_thread e me (fun t => th_set_cont t rest)) =
+  list_set (tsig e) me (t_body t, (t_tls t, ykeys rest)).
+Proof.
+  intros Ht. unfold tsig, upd_thread, list_upd. cbn [ex_set_threads e_threads].
+  rewrite Ht, map_list_set. reflexivity.
+Qed.
+
+Lemma tsig_push_cont e me ms b l y :
+  nth_error (tsig e) me = Some (b, (l, y)) ->
+  tsig (push_cont e me ms) = list_set (tsig e) me (b, (l, ykeys ms ++ y)).
+Proof.
+  intros H. unfold tsig in *. rewrite nth_error_map in H.
+  destruct (nth_error (e_threads e) me) as [t|] eqn:Ht; [|discriminate H].
+  cbn [option_map] in H. unfold bt in H. injection H as H1 H2 H3.
+  unfold push_cont, upd_thread, list_upd. cbn [ex_set_threads e_threads].
+  rewrite Ht, map_list_set. unfold bt at 2, th_set_cont. cbn [t_body t_tls t_cont].
+  rewrite ykeys_app, H1, H2, H3. reflexivity.
+Qed.
+
+Lemma list_set_list_set (A : Type) (l : list A) i x y : list_set (list_set l i x) i y = list_set l i y.
+Proof.
+  revert i; induction l as [|h t IH]; intros [|i]; cbn [list_set]; try reflexivity.
+  rewrite IH. reflexivity.
+Qed.
+
+Lemma nth_error_tsig_lt e me x : nth_error (tsig e) me = Some x -> me < length (tsig e).
+Proof. intros H. apply nth_error_Some. rewrite H. discriminate. Qed.
+
+(* the initialiser of MLazyGetY cannot fail: the cell is new *)
+Lemma getY_init_ok e me k lz :
+  e_lazy e = Some lz -> find (fun x => Nat.eqb (fst x) k) lz = None ->
+  exists e1 ci, exec_micro e me (MLazyGetY k) = MOk (push_cont e1 me [MYield; MLazyFinishY k ci]) /\
+                veq (ex_set_log e (LInitLazy k :: e_log e)) e1.
+Proof.
+  intros Hl Hf. cbn [exec_micro]. rewrite Hl, Hf. cbv zeta.
+  set (e0 := ex_set_log e (LInitLazy k :: e_log e)).
+  set (c0 := caus_of e0 me).
+  set (e1 := causality_inc (ex_set_objects e0 (e_objects e0 ++ [OCell (cell_new c0)])) me).
+  assert (Hg : get_cell e1 (length (e_objects e0)) = Some (cell_new c0)).
+  { unfold get_cell, e1, causality_inc, upd_thread. cbn [ex_set_threads ex_set_objects e_objects].
+    rewrite nth_error_app2 by apply Nat.le_refl. rewrite Nat.sub_diag. reflexivity. }
+  rewrite Hg.
+  assert (Hc : vle c0 (caus_of e1 me)).
+  { pose proof (mono_causality_inc_k _ _ me
+                  (mono_refl (ex_set_objects e0 (e_objects e0 ++ [OCell (cell_new c0)])))) as Hm.
+    destruct Hm as (_ & Hcm & _). exact (Hcm me). }
+  unfold cell_track_write at 1. unfold cell_new at 1 2. cbn [ce_write ce_read ce_reading ce_writing].
+  rewrite (proj2 (vv_ahead_none (caus_of e1 me) c0) Hc).
+  unfold cell_track_write, cell_new. cbn [ce_write ce_read ce_reading ce_writing].
+  rewrite (proj2 (vv_ahead_none (caus_of e1 me) (vv_join c0 (caus_of e1 me)))
+             (vle_join_lub _ _ _ Hc (vle_refl _))).
+  rewrite (proj2 (vv_ahead_none (caus_of e1 me) c0) Hc).
+  eexists. eexists. split; [reflexivity|].
+  unfold e1. vclose.
+Qed.
+
+(* MLazyGetY k, from the state in which it heads thread me's continuation *)
+Lemma getY_ystep e me t k rest :
+  nth_error (e_threads e) me = Some t -> t_cont t = MLazyGetY k :: rest ->
+  ystep e (res_exec (exec_micro (upd_thread e me (fun t => th_set_cont t rest)) me (MLazyGetY k))).
+Proof.
+  intros Ht Hc.
+  set (ep := upd_thread e me (fun t => th_set_cont t rest)).
+  assert (Hn : nth_error (tsig e) me = Some (t_body t, (t_tls t, (false, k) :: ykeys rest))).
+  { unfold tsig. rewrite nth_error_map, Ht. cbn [option_map]. unfold bt. rewrite Hc. reflexivity. }
+  assert (Hp : tsig ep = list_set (tsig e) me (t_body t, (t_tls t, ykeys rest)))
+    by (apply tsig_pop; exact Ht).
+  assert (Hskip : ystep e ep).
+  { apply ys_skip with (i := me) (b := t_body t) (l := t_tls t) (k := k) (y := ykeys rest);
+      [exact Hn|exact Hp|reflexivity..]. }
+  destruct (e_lazy ep) as [lz|] eqn:Hl.
+  - destruct (find (fun x => Nat.eqb (fst x) k) lz) as [x|] eqn:Hf.
+    + cbn [exec_micro]. rewrite Hl, Hf. cbn [res_exec].
+      eapply ystep_veq_r; [exact Hskip|]. vclose.
+    + destruct (getY_init_ok ep me k lz Hl Hf) as (e1 & ci & -> & Hv). cbn [res_exec].
+      destruct Hv as (V1 & V2 & V3 & V4).
+      assert (Hn1 : nth_error (tsig e1) me = Some (t_body t, (t_tls t, ykeys rest))).
+      { rewrite V1. change (tsig (ex_set_log ep (LInitLazy k :: e_log ep))) with (tsig ep).
+        rewrite Hp. apply nth_error_list_set_same. eapply nth_error_tsig_lt. exact Hn. }
+      apply ys_init with (i := me) (b := t_body t) (l := t_tls t) (k := k) (y := ykeys rest).
+      * exact Hn.
+      * rewrite (tsig_push_cont e1 me _ _ _ _ Hn1). rewrite V1.
+        change (tsig (ex_set_log ep (LInitLazy k :: e_log ep))) with (tsig ep).
+        rewrite Hp, list_set_list_set. reflexivity.
+      * change (inits (push_cont e1 me [MYield; MLazyFinishY k ci])) with (inits e1). rewrite V2. reflexivity.
+      * change (e_lazy (push_cont e1 me [MYield; MLazyFinishY k ci])) with (e_lazy e1). rewrite V3. reflexivity.
+      * change (e_bodies (push_cont e1 me [MYield; MLazyFinishY k ci])) with (e_bodies e1). rewrite V4. reflexivity.
+  - cbn [exec_micro]. rewrite Hl. cbn [res_exec]. exact Hskip.
+Qed.
+
+(* MLazyFinishY k ci, likewise *)
+Lemma finY_ystep e me t k ci rest :
+  nth_error (e_threads e) me = Some t -> t_cont t = MLazyFinishY k ci :: rest ->
+  ystep e (res_exec (exec_micro (upd_thread e me (fun t => th_set_cont t rest)) me (MLazyFinishY k ci))).
+Proof.
+  intros Ht Hc.
+  set (ep := upd_thread e me (fun t => th_set_cont t rest)).
+  assert (Hn : nth_error (tsig e) me = Some (t_body t, (t_tls t, (true, k) :: ykeys rest))).
+  { unfold tsig. rewrite nth_error_map, Ht. cbn [option_map]. unfold bt. rewrite Hc. reflexivity. }
+  assert (Hp : tsig ep = list_set (tsig e) me (t_body t, (t_tls t, ykeys rest)))
+    by (apply tsig_pop; exact Ht).
+  cbn [exec_micro]. destruct (e_lazy ep) as [lz|] eqn:Hl.
+  - destruct (find (fun x => Nat.eqb (fst x) k) lz) as [x|] eqn:Hf; cbn [res_exec].
+    + match goal with |- ystep _ (push_cont ?E _ _) => eapply ystep_veq_r with (e1 := E); [|vclose] end.
+      apply ys_lose with (i := me) (b := t_body t) (l := t_tls t) (k := k) (y := ykeys rest);
+        [exact Hn| |exact Hp|reflexivity..].
+      change (e_lazy e) with (e_lazy ep). rewrite Hl. eapply find_key_some. exact Hf.
+    + match goal with |- ystep _ (push_cont ?E _ _) => eapply ystep_veq_r with (e1 := E); [|vclose] end.
+      eapply ys_reg with (i := me) (b := t_body t) (l := t_tls t) (k := k) (y := ykeys rest) (lz := lz);
+        [exact Hn|exact Hl|apply find_key_none; exact Hf|reflexivity|exact Hp|reflexivity..].
+  - cbn [res_exec].
+    apply ys_lose with (i := me) (b := t_body t) (l := t_tls t) (k := k) (y := ykeys rest);
+      [exact Hn| |exact Hp|reflexivity..].
+    change (e_lazy e) with (e_lazy ep). rewrite Hl. exact I.
 Qed.
 
 (* ================================================================== *)
@@ -606,26 +851,59 @@ Definition is_tls (k b : nat) (x : logline) : bool :=
   match x with LInitTls k' b' => Nat.eqb k' k && Nat.eqb b' b | _ => false end.
 Definition is_lazy (k : nat) (x : logline) : bool :=
   match x with LInitLazy k' => Nat.eqb k' k | _ => false end.
+Definition is_ldrop (k : nat) (x : logline) : bool :=
+  match x with LDropLazy k' => Nat.eqb k' k | _ => false end.
 
-(* number of LInitTls k b (resp. LInitLazy k) entries of a log *)
+(* number of LInitTls k b (resp. LInitLazy k, LDropLazy k) entries of a log *)
 Definition cnt_tls (k b : nat) (l : list logline) : nat := length (filter (is_tls k b) l).
 Definition cnt_lazy (k : nat) (l : list logline) : nat := length (filter (is_lazy k) l).
+Definition cnt_ldrop (k : nat) (l : list logline) : nat := length (filter (is_ldrop k) l).
 
-(* thread entry (body, keys) counts for (k, b) *)
-Definition hit (k b : nat) (x : nat * list nat) : bool :=
-  Nat.eqb (fst x) b && existsb (Nat.eqb k) (snd x).
+(* thread entry (body, (keys, _)) counts for (k, b) *)
+Definition hit (k b : nat) (x : tview) : bool :=
+  Nat.eqb (fst x) b && existsb (Nat.eqb k) (fst (snd x)).
 
-Definition lazy_inv (lzo : option (list (nat * (nat * vv)))) (l : list logline) : Prop :=
+(* the lazy-static micro-operations held by all continuations; pendf k: the
+   number of initialisers of k in flight (MLazyFinishY k _ in a continuation) *)
+Definition ysel (x : tview) : list (bool * nat) := snd (snd x).
+Definition yall (ts : list tview) : list (bool * nat) := flat_map ysel ts.
+Definition is_pf (k : nat) (x : bool * nat) : bool := fst x && Nat.eqb (snd x) k.
+Definition pendf (k : nat) (ts : list tview) : nat := length (filter (is_pf k) (yall ts)).
+
+(* 1 if k is registered *)
+Definition reg (k : nat) (lz : list (nat * (nat * vv))) : nat :=
+  if existsb (Nat.eqb k) (map fst lz) then 1 else 0.
+
+(* k is the key of a yielding lazy static of the program *)
+Definition bmention (k : nat) (bodies : list (list micro)) : Prop :=
+  exists c x, In c bodies /\ In x (ykeys c) /\ snd x = k.
+
+(* the balance: initialisers run = registered + values dropped + in flight.
+   After the shutdown the registered values of the keys below 8 have been
+   dropped too (MLazyDrop logs those keys only). *)
+Definition lazy_inv (lzo : option (list (nat * (nat * vv)))) (l : list logline) (ts : list tview) : Prop :=
   match lzo with
   | Some lz => NoDup (map fst lz) /\
-               forall k, cnt_lazy k l = if existsb (Nat.eqb k) (map fst lz) then 1 else 0
-  | None => forall k, cnt_lazy k l <= 1
+               forall k, cnt_lazy k l = reg k lz + cnt_ldrop k l + pendf k ts
+  | None => forall k, cnt_ldrop k l + pendf k ts <= cnt_lazy k l /\
+                      cnt_lazy k l <= cnt_ldrop k l + pendf k ts + 1 /\
+                      (k < 8 -> cnt_lazy k l = cnt_ldrop k l + pendf k ts)
   end.
 
+(* the keys without yielding initialiser: nothing is dropped before the
+   shutdown; at most one initialisation ever *)
+Definition lazy_inv1 (lzo : option (list (nat * (nat * vv)))) (l : list logline)
+           (bodies : list (list micro)) : Prop :=
+  forall k, ~ bmention k bodies ->
+    match lzo with Some _ => cnt_ldrop k l = 0 | None => cnt_lazy k l <= 1 end.
+
 Definition tl_inv (e : exec) : Prop :=
-  Forall (fun x => NoDup (snd x)) (tsig e) /\
+  Forall (fun x => NoDup (fst (snd x))) (tsig e) /\
   (forall k b, cnt_tls k b (inits e) = length (filter (hit k b) (tsig e))) /\
-  lazy_inv (e_lazy e) (inits e).
+  lazy_inv (e_lazy e) (inits e) (tsig e) /\
+  lazy_inv1 (e_lazy e) (inits e) (e_bodies e) /\
+  (forall c x, In c (e_bodies e) -> In x (ykeys c) -> fst x = false) /\
+  (forall x, In x (yall (tsig e)) -> bmention (snd x) (e_bodies e)).
 
 Lemma filter_filter_imp (A : Type) (f g : A -> bool) l :
   (forall x, f x = true -> g x = true) -> filter f (filter g l) = filter f l.
@@ -648,8 +926,14 @@ Proof.
   intros [] H; cbn in *; congruence.
 Qed.
 
+Lemma cnt_ldrop_inits k e : cnt_ldrop k (inits e) = cnt_ldrop k (e_log e).
+Proof.
+  unfold cnt_ldrop, inits. rewrite filter_filter_imp; [reflexivity|].
+  intros [] H; cbn in *; congruence.
+Qed.
+
 Lemma veq_inv e e' : veq e e' -> tl_inv e -> tl_inv e'.
-Proof. intros (V1 & V2 & V3). unfold tl_inv. rewrite V1, V2, V3. auto. Qed.
+Proof. intros (V1 & V2 & V3 & V4). unfold tl_inv. rewrite V1, V2, V3, V4. auto. Qed.
 
 Lemma filter_length_list_set (A : Type) (f : A -> bool) l i x y :
   nth_error l i = Some x ->
@@ -677,22 +961,180 @@ Qed.
 Lemma existsb_snoc k l x : existsb (Nat.eqb k) (l ++ [x]) = existsb (Nat.eqb k) l || Nat.eqb k x.
 Proof. rewrite existsb_app. cbn [existsb]. rewrite orb_false_r. reflexivity. Qed.
 
+(* ---- the continuations' keys under a change of one thread's view ---- *)
+Lemma yall_list_set ts : forall i x x', nth_error ts i = Some x ->
+  exists pre post, yall ts = pre ++ ysel x ++ post /\ yall (list_set ts i x') = pre ++ ysel x' ++ post.
+Proof.
+  induction ts as [|h t IH]; intros [|i] x x' H; cbn [nth_error] in H; try discriminate H.
+  - injection H as ->. exists [], (yall t). split; reflexivity.
+  - destruct (IH i x x' H) as (pre & post & E1 & E2). exists (ysel h ++ pre), post.
+    unfold yall in *. cbn [list_set flat_map]. rewrite E1, E2, <- !app_assoc. split; reflexivity.
+Qed.
+
+Lemma pendf_list_set ts i x x' k : nth_error ts i = Some x ->
+  pendf k (list_set ts i x') + length (filter (is_pf k) (ysel x)) =
+  pendf k ts + length (filter (is_pf k) (ysel x')).
+Proof.
+  intros H. destruct (yall_list_set ts i x x' H) as (pre & post & E1 & E2).
+  unfold pendf. rewrite E1, E2, !filter_app, !app_length. lia.
+Qed.
+
+Lemma yall_list_set_in ts i x x' z : nth_error ts i = Some x ->
+  In z (yall (list_set ts i x')) -> In z (yall ts) \/ In z (ysel x').
+Proof.
+  intros H Hz. destruct (yall_list_set ts i x x' H) as (pre & post & E1 & E2).
+  rewrite E2 in Hz. rewrite E1. apply in_app_or in Hz. destruct Hz as [Hz|Hz].
+  - left. apply in_or_app. left. exact Hz.
+  - apply in_app_or in Hz. destruct Hz as [Hz|Hz]; [right; exact Hz|].
+    left. apply in_or_app. right. apply in_or_app. right. exact Hz.
+Qed.
+
+Lemma yall_nth_in ts i x z : nth_error ts i = Some x -> In z (ysel x) -> In z (yall ts).
+Proof.
+  intros H Hz. unfold yall. apply in_flat_map. exists x. split; [eapply nth_error_In; exact H|exact Hz].
+Qed.
+
+Lemma yall_list_set_same ts i x x' : nth_error ts i = Some x -> ysel x' = ysel x ->
+  yall (list_set ts i x') = yall ts.
+Proof.
+  intros H Hs. destruct (yall_list_set ts i x x' H) as (pre & post & E1 & E2).
+  rewrite E1, E2, Hs. reflexivity.
+Qed.
+
+Lemma pendf_zero k ts : (forall x, In x (yall ts) -> snd x <> k) -> pendf k ts = 0.
+Proof.
+  intros H. unfold pendf. induction (yall ts) as [|h t IH]; [reflexivity|]. cbn [filter].
+  assert (Hh : is_pf k h = false).
+  { unfold is_pf. destruct (Nat.eqb_spec (snd h) k) as [He|He]; [|apply andb_false_r].
+    destruct (H h (or_introl eq_refl) He). }
+  rewrite Hh. apply IH. intros x Hx. apply H. right. exact Hx.
+Qed.
+
+Lemma filter_pf_nofin k l : (forall x, In x l -> fst x = false) -> filter (is_pf k) l = [].
+Proof.
+  induction l as [|h t IH]; intros H; cbn [filter]; [reflexivity|].
+  unfold is_pf at 1. rewrite (H h (or_introl eq_refl)). cbn [andb]. apply IH.
+  intros x Hx. apply H. right. exact Hx.
+Qed.
+
+Lemma lazy_inv_pendf lzo l ts ts' :
+  (forall k, pendf k ts' = pendf k ts) -> lazy_inv lzo l ts -> lazy_inv lzo l ts'.
+Proof.
+  intros Hp. unfold lazy_inv. destruct lzo as [lz|].
+  - intros [Hnd Hc]. split; [exact Hnd|]. intros k. rewrite Hp. apply Hc.
+  - intros Hc k. rewrite Hp. apply Hc.
+Qed.
+
+(* ---- counting log entries ---- *)
+Lemma cnt_lazy_cons_init k k' l :
+  cnt_lazy k' (LInitLazy k :: l) = (if Nat.eqb k k' then 1 else 0) + cnt_lazy k' l.
+Proof. unfold cnt_lazy. cbn [filter is_lazy]. destruct (Nat.eqb k k'); reflexivity. Qed.
+
+Lemma cnt_ldrop_cons_drop k k' l :
+  cnt_ldrop k' (LDropLazy k :: l) = (if Nat.eqb k k' then 1 else 0) + cnt_ldrop k' l.
+Proof. unfold cnt_ldrop. cbn [filter is_ldrop]. destruct (Nat.eqb k k'); reflexivity. Qed.
+
+Lemma reg_snoc k k' lz x : ~ In k (map fst lz) ->
+  reg k' (lz ++ [(k, x)]) = reg k' lz + (if Nat.eqb k k' then 1 else 0).
+Proof.
+  intros Hk. unfold reg. rewrite map_app. cbn [map fst]. rewrite existsb_snoc.
+  destruct (existsb (Nat.eqb k') (map fst lz)) eqn:Hex; cbn [orb].
+  - destruct (Nat.eqb_spec k k') as [->|Hne]; [|reflexivity].
+    apply existsb_eqb_true in Hex. contradiction.
+  - rewrite (Nat.eqb_sym k' k). destruct (Nat.eqb k k'); reflexivity.
+Qed.
+
+Lemma reg_in k lz : In k (map fst lz) -> reg k lz = 1.
+Proof.
+  intros H. unfold reg. destruct (existsb (Nat.eqb k) (map fst lz)) eqn:Hex; [reflexivity|].
+  apply existsb_eqb_false in Hex. contradiction.
+Qed.
+
+Lemma existsb_fst_map (B : Type) k (lz : list (nat * B)) :
+  existsb (fun x => Nat.eqb (fst x) k) lz = existsb (Nat.eqb k) (map fst lz).
+Proof.
+  induction lz as [|h t IH]; [reflexivity|]. cbn [existsb map]. rewrite IH, (Nat.eqb_sym k (fst h)). reflexivity.
+Qed.
+
+Lemma count_seq_filter (P : nat -> bool) k : forall n a,
+  length (filter (fun j => Nat.eqb j k) (filter P (seq a n))) =
+  if Nat.leb a k && Nat.ltb k (a + n) && P k then 1 else 0.
+Proof.
+  induction n as [|n IH]; intros a; cbn [seq filter].
+  - destruct (Nat.leb_spec a k), (Nat.ltb_spec k (a + 0)); cbn [andb length]; try reflexivity. lia.
+  - destruct (P a) eqn:Hp; cbn [filter].
+    + destruct (Nat.eqb_spec a k) as [->|Hne]; cbn [length]; rewrite IH.
+      * rewrite Hp. destruct (Nat.leb_spec (S k) k), (Nat.leb_spec k k), (Nat.ltb_spec k (k + S n));
+          cbn [andb]; try reflexivity; lia.
+      * destruct (Nat.leb_spec (S a) k), (Nat.leb_spec a k), (Nat.ltb_spec k (S a + n)),
+          (Nat.ltb_spec k (a + S n)); cbn [andb]; try reflexivity; lia.
+    + rewrite IH. destruct (Nat.eqb_spec a k) as [->|Hne].
+      * rewrite Hp, !andb_false_r. reflexivity.
+      * destruct (Nat.leb_spec (S a) k), (Nat.leb_spec a k), (Nat.ltb_spec k (S a + n)),
+          (Nat.ltb_spec k (a + S n)); cbn [andb]; try reflexivity; lia.
+Qed.
+
+Lemma cnt_dkeys k lz :
+  length (filter (fun j => Nat.eqb j k) (dkeys lz)) = if Nat.ltb k 8 then reg k lz else 0.
+Proof.
+  unfold dkeys. rewrite count_seq_filter. cbn [Nat.leb andb plus]. unfold reg.
+  rewrite existsb_fst_map. destruct (Nat.ltb k 8); reflexivity.
+Qed.
+
+Lemma cnt_lazy_drops k ks l : cnt_lazy k (rev (map LDropLazy ks) ++ l) = cnt_lazy k l.
+Proof.
+  unfold cnt_lazy. rewrite filter_app_none; [reflexivity|].
+  intros x Hx. apply in_rev in Hx. apply in_map_iff in Hx. destruct Hx as (a & <- & _). reflexivity.
+Qed.
+
+Lemma filter_rev_length (A : Type) (f : A -> bool) l : length (filter f (rev l)) = length (filter f l).
+Proof.
+  induction l as [|h t IH]; [reflexivity|]. cbn [rev filter]. rewrite filter_app, app_length, IH.
+  cbn [filter]. destruct (f h); cbn [length]; lia.
+Qed.
+
+Lemma cnt_ldrop_drops k ks l :
+  cnt_ldrop k (rev (map LDropLazy ks) ++ l) = length (filter (fun j => Nat.eqb j k) ks) + cnt_ldrop k l.
+Proof.
+  unfold cnt_ldrop. rewrite filter_app, app_length, filter_rev_length. f_equal.
+  induction ks as [|h t IH]; [reflexivity|]. cbn [map filter is_ldrop].
+  destruct (Nat.eqb h k); cbn [length]; rewrite IH; reflexivity.
+Qed.
+
+(* ---- preservation ---- *)
 Lemma tstep_inv e e' : tstep e e' -> tl_inv e -> tl_inv e'.
 Proof.
-  intros H (I1 & I2 & I3).
-  destruct H as [Hv|b H1 H2 H3|i b l k H1 H2 H3 H4 H5|lz k x H1 H2 H3 H4 H5|H1 H2 H3].
-  - apply (veq_inv e e' Hv). repeat split; assumption.
-  - unfold tl_inv. rewrite H1, H2, H3. split; [|split; [|exact I3]].
+  intros H (I1 & I2 & I3 & I4 & I5 & I6).
+  destruct H as [Hv|b H1 H2 H3 H4|i b l y k H1 H2 H3 H4 H5 H6|lz k x H1 H2 H3 H4 H5 H6|lz H1 H2 H3 H4 H5].
+  - apply (veq_inv e e' Hv). exact (conj I1 (conj I2 (conj I3 (conj I4 (conj I5 I6))))).
+  - (* spawn *)
+    assert (Hnf : forall z, In z (ykeys (nth b (e_bodies e) [])) -> fst z = false /\ bmention (snd z) (e_bodies e)).
+    { intros z Hz. destruct (nth_in_or_default b (e_bodies e) []) as [Hin|Hd].
+      - split; [eapply I5; eassumption|]. exists (nth b (e_bodies e) []), z. auto.
+      - rewrite Hd in Hz. destruct Hz. }
+    assert (Hya : yall (tsig e ++ [(b, ([], ykeys (nth b (e_bodies e) [])))]) =
+                  yall (tsig e) ++ ykeys (nth b (e_bodies e) [])).
+    { unfold yall. rewrite flat_map_app. cbn [flat_map ysel snd]. rewrite app_nil_r. reflexivity. }
+    unfold tl_inv. rewrite H1, H2, H3, H4. split; [|split; [|split; [|split; [exact I4|split; [exact I5|]]]]].
     + apply Forall_app. split; [exact I1|]. constructor; [constructor|constructor].
-    + intros k b'. rewrite filter_app, app_length, I2. cbn [filter hit fst snd existsb].
-      unfold hit. cbn [fst snd existsb]. rewrite andb_false_r. cbn [length]. lia.
-  - unfold tl_inv. rewrite H3, H4, H5. split; [|split; [|exact I3]].
-    + apply Forall_list_set; [exact I1|]. cbn [snd]. apply NoDup_snoc; [|exact H2].
+    + intros k b'. rewrite filter_app, app_length, I2. cbn [filter].
+      assert (Hh : hit k b' (b, ([], ykeys (nth b (e_bodies e) []))) = false)
+        by (unfold hit; cbn [fst snd existsb]; apply andb_false_r).
+      rewrite Hh. cbn [length]. lia.
+    + eapply lazy_inv_pendf; [|exact I3]. intros k. unfold pendf. rewrite Hya, filter_app, app_length.
+      rewrite (filter_pf_nofin k (ykeys (nth b (e_bodies e) []))); [cbn [length]; lia|].
+      intros z Hz. apply (Hnf z Hz).
+    + intros z Hz. rewrite Hya in Hz. apply in_app_or in Hz. destruct Hz as [Hz|Hz]; [apply I6, Hz|apply (Hnf z Hz)].
+  - (* first use of a thread-local *)
+    assert (Hya : yall (list_set (tsig e) i (b, (l ++ [k], y))) = yall (tsig e))
+      by (eapply yall_list_set_same; [exact H1|reflexivity]).
+    unfold tl_inv. rewrite H3, H4, H5, H6. split; [|split; [|split; [|split; [|split; [exact I5|]]]]].
+    + apply Forall_list_set; [exact I1|]. cbn [fst snd]. apply NoDup_snoc; [|exact H2].
       rewrite Forall_forall in I1. exact (I1 _ (nth_error_In _ _ H1)).
-    + intros k' b'. pose proof (filter_length_list_set _ (hit k' b') _ i (b, l) (b, l ++ [k]) H1) as Hc.
+    + intros k' b'. pose proof (filter_length_list_set _ (hit k' b') _ i (b, (l, y)) (b, (l ++ [k], y)) H1) as Hc.
       specialize (I2 k' b'). unfold cnt_tls in *. cbn [filter is_tls].
-      assert (Hx : hit k' b' (b, l) = Nat.eqb b b' && existsb (Nat.eqb k') l) by reflexivity.
-      assert (Hy : hit k' b' (b, l ++ [k]) = Nat.eqb b b' && (existsb (Nat.eqb k') l || Nat.eqb k' k))
+      assert (Hx : hit k' b' (b, (l, y)) = Nat.eqb b b' && existsb (Nat.eqb k') l) by reflexivity.
+      assert (Hy : hit k' b' (b, (l ++ [k], y)) = Nat.eqb b b' && (existsb (Nat.eqb k') l || Nat.eqb k' k))
         by (unfold hit; cbn [fst snd]; rewrite existsb_snoc; reflexivity).
       rewrite Hx, Hy in Hc. clear Hx Hy.
       destruct (Nat.eqb_spec b b') as [->|Hb]; cbn [andb] in Hc.
@@ -703,52 +1145,218 @@ Proof.
            ++ lia.
         -- rewrite (Nat.eqb_sym k k'). destruct (Nat.eqb k' k); cbn [length]; lia.
       * rewrite andb_false_r. lia.
-  - unfold tl_inv. rewrite H3, H4, H5. split; [exact I1|]. split.
+    + assert (I3' : lazy_inv (e_lazy e) (inits e) (list_set (tsig e) i (b, (l ++ [k], y)))).
+      { eapply lazy_inv_pendf; [|exact I3]. intros k'. unfold pendf. rewrite Hya. reflexivity. }
+      unfold lazy_inv in *. destruct (e_lazy e) as [lz|]; exact I3'.
+    + unfold lazy_inv1 in *. intros k' Hk'. specialize (I4 k' Hk'). destruct (e_lazy e) as [lz|]; exact I4.
+    + rewrite Hya. exact I6.
+  - (* MLazyGet initialises and registers k *)
+    unfold tl_inv. rewrite H3, H4, H5, H6. split; [exact I1|]. split; [|split; [|split; [|split; [exact I5|exact I6]]]].
     + intros k' b'. unfold cnt_tls in *. cbn [filter is_tls]. apply I2.
     + rewrite H1 in I3. destruct I3 as [Hnd Hc]. cbn [lazy_inv]. split.
       * rewrite map_app. cbn [map fst]. apply NoDup_snoc; assumption.
-      * intros k'. specialize (Hc k'). unfold cnt_lazy in *. cbn [filter is_lazy].
-        rewrite map_app. cbn [map fst]. rewrite existsb_snoc.
-        destruct (existsb (Nat.eqb k') (map fst lz)) eqn:Hex; cbn [orb].
-        -- destruct (Nat.eqb_spec k k') as [->|Hk]; [|exact Hc].
-           apply existsb_eqb_true in Hex. contradiction.
-        -- rewrite (Nat.eqb_sym k k'). destruct (Nat.eqb k' k); cbn [length]; lia.
-  - unfold tl_inv. rewrite H1, H2, H3. split; [exact I1|]. split; [exact I2|].
-    cbn [lazy_inv]. intros k. destruct (e_lazy e) as [lz|]; cbn [lazy_inv] in I3.
-    + destruct I3 as [_ Hc]. rewrite Hc. destruct (existsb _ _); lia.
-    + apply I3.
+      * intros k'. rewrite cnt_lazy_cons_init, (reg_snoc k k' lz x H2), Hc.
+        change (cnt_ldrop k' (LInitLazy k :: inits e)) with (cnt_ldrop k' (inits e)). lia.
+    + rewrite H1 in I4. exact I4.
+  - (* shutdown *)
+    unfold tl_inv. rewrite H2, H3, H4, H5. split; [exact I1|]. split; [|split; [|split; [|split; [exact I5|exact I6]]]].
+    + intros k b. unfold cnt_tls. rewrite filter_app_none; [apply I2|].
+      intros x Hx. apply in_rev in Hx. apply in_map_iff in Hx. destruct Hx as (a & <- & _). reflexivity.
+    + rewrite H1 in I3. destruct I3 as [_ Hc]. cbn [lazy_inv]. intros k.
+      rewrite cnt_lazy_drops, cnt_ldrop_drops, cnt_dkeys, Hc.
+      assert (Hr : reg k lz <= 1) by (unfold reg; destruct (existsb _ _); lia).
+      destruct (Nat.ltb_spec k 8); repeat split; lia.
+    + rewrite H1 in I3, I4. destruct I3 as [_ Hc]. intros k Hk. rewrite cnt_lazy_drops, Hc, (I4 k Hk).
+      rewrite (pendf_zero k (tsig e)).
+      * unfold reg. destruct (existsb _ _); lia.
+      * intros x Hx He. apply Hk. rewrite <- He. apply I6, Hx.
 Qed.
 
-Theorem exec_micro_inv e me m : tl_inv e -> tl_inv (res_exec (exec_micro e me m)).
-Proof. apply tstep_inv, exec_micro_tstep. Qed.
+Lemma hit_list_set (ts : list tview) i b l y y' k b' : nth_error ts i = Some (b, (l, y)) ->
+  length (filter (hit k b') (list_set ts i (b, (l, y')))) = length (filter (hit k b') ts).
+Proof.
+  intros H. pose proof (filter_length_list_set tview (hit k b') ts i (b, (l, y)) (b, (l, y')) H) as Hc.
+  assert (He : hit k b' (b, (l, y')) = hit k b' (b, (l, y))) by reflexivity.
+  rewrite He in Hc. lia.
+Qed.
 
-Lemma pop_veq e me rest : veq e (upd_thread e me (fun t => th_set_cont t rest)).
-Proof. apply veq_upd_thread_k; [bt_tac|apply veq_refl]. Qed.
+Lemma ystep_inv e e' : ystep e e' -> tl_inv e -> tl_inv e'.
+Proof.
+  intros H (I1 & I2 & I3 & I4 & I5 & I6).
+  assert (Hnd : forall i b l y, nth_error (tsig e) i = Some (b, (l, y)) -> NoDup l).
+  { intros i b l y Hn. rewrite Forall_forall in I1. exact (I1 _ (nth_error_In _ _ Hn)). }
+  destruct H as [i b l k y H1 H2 H3 H4 H5|i b l k y H1 H2 H3 H4 H5
+                |i b l k y lz x H1 H2 H3 H4 H5 H6 H7|i b l k y H1 H2 H3 H4 H5 H6].
+  - (* ys_skip *)
+    assert (Hp : forall k', pendf k' (list_set (tsig e) i (b, (l, y))) = pendf k' (tsig e)).
+    { intros k'. pose proof (pendf_list_set (tsig e) i _ (b, (l, y)) k' H1) as Hc.
+      cbn [ysel snd filter is_pf fst andb] in Hc. lia. }
+    unfold tl_inv. rewrite H2, H3, H4, H5. split; [|split; [|split; [|split; [exact I4|split; [exact I5|]]]]].
+    + apply Forall_list_set; [exact I1|]. cbn [fst snd]. eapply Hnd; exact H1.
+    + intros k' b'. rewrite (hit_list_set _ _ _ _ _ _ _ _ H1). apply I2.
+    + eapply lazy_inv_pendf; [|exact I3]. exact Hp.
+    + intros z Hz. destruct (yall_list_set_in _ _ _ _ z H1 Hz) as [Hz'|Hz']; [apply I6, Hz'|].
+      apply I6. eapply yall_nth_in; [exact H1|]. right. exact Hz'.
+  - (* ys_init *)
+    assert (Hp : forall k', pendf k' (list_set (tsig e) i (b, (l, (true, k) :: y))) =
+                            (if Nat.eqb k k' then 1 else 0) + pendf k' (tsig e)).
+    { intros k'. pose proof (pendf_list_set (tsig e) i _ (b, (l, (true, k) :: y)) k' H1) as Hc.
+      cbn [ysel snd filter is_pf fst andb] in Hc. destruct (Nat.eqb k k'); cbn [length] in Hc; lia. }
+    unfold tl_inv. rewrite H2, H3, H4, H5. split; [|split; [|split; [|split; [|split; [exact I5|]]]]].
+    + apply Forall_list_set; [exact I1|]. cbn [fst snd]. eapply Hnd; exact H1.
+    + intros k' b'. rewrite (hit_list_set _ _ _ _ _ _ _ _ H1). unfold cnt_tls in *. cbn [filter is_tls]. apply I2.
+    + unfold lazy_inv in *. destruct (e_lazy e) as [lz|].
+      * destruct I3 as [Hn Hc]. split; [exact Hn|]. intros k'. rewrite cnt_lazy_cons_init, Hp, Hc.
+        change (cnt_ldrop k' (LInitLazy k :: inits e)) with (cnt_ldrop k' (inits e)). lia.
+      * intros k'. specialize (I3 k'). rewrite cnt_lazy_cons_init, Hp.
+        change (cnt_ldrop k' (LInitLazy k :: inits e)) with (cnt_ldrop k' (inits e)). lia.
+    + assert (Hm : bmention k (e_bodies e)).
+      { apply (I6 (false, k)). eapply yall_nth_in; [exact H1|]. left. reflexivity. }
+      unfold lazy_inv1 in *. intros k' Hk'. specialize (I4 k' Hk'). destruct (e_lazy e) as [lz|].
+      * exact I4.
+      * rewrite cnt_lazy_cons_init. destruct (Nat.eqb_spec k k') as [->|Hne]; [contradiction|exact I4].
+    + intros z Hz. destruct (yall_list_set_in _ _ _ _ z H1 Hz) as [Hz'|Hz']; [apply I6, Hz'|].
+      cbn [ysel snd] in Hz'. destruct Hz' as [<-|Hz'].
+      * apply (I6 (false, k)). eapply yall_nth_in; [exact H1|]. left. reflexivity.
+      * apply I6. eapply yall_nth_in; [exact H1|]. right. exact Hz'.
+  - (* ys_reg *)
+    assert (Hp : forall k', pendf k' (list_set (tsig e) i (b, (l, y))) + (if Nat.eqb k k' then 1 else 0) =
+                            pendf k' (tsig e)).
+    { intros k'. pose proof (pendf_list_set (tsig e) i _ (b, (l, y)) k' H1) as Hc.
+      cbn [ysel snd filter is_pf fst andb] in Hc. destruct (Nat.eqb k k'); cbn [length] in Hc; lia. }
+    unfold tl_inv. rewrite H4, H5, H6, H7. split; [|split; [|split; [|split; [|split; [exact I5|]]]]].
+    + apply Forall_list_set; [exact I1|]. cbn [fst snd]. eapply Hnd; exact H1.
+    + intros k' b'. rewrite (hit_list_set _ _ _ _ _ _ _ _ H1). apply I2.
+    + rewrite H2 in I3. destruct I3 as [Hn Hc]. cbn [lazy_inv]. split.
+      * rewrite map_app. cbn [map fst]. apply NoDup_snoc; assumption.
+      * intros k'. rewrite (reg_snoc k k' lz x H3), Hc. specialize (Hp k'). lia.
+    + rewrite H2 in I4. exact I4.
+    + intros z Hz. destruct (yall_list_set_in _ _ _ _ z H1 Hz) as [Hz'|Hz']; [apply I6, Hz'|].
+      apply I6. eapply yall_nth_in; [exact H1|]. right. exact Hz'.
+  - (* ys_lose *)
+    assert (Hp : forall k', pendf k' (list_set (tsig e) i (b, (l, y))) + (if Nat.eqb k k' then 1 else 0) =
+                            pendf k' (tsig e)).
+    { intros k'. pose proof (pendf_list_set (tsig e) i _ (b, (l, y)) k' H1) as Hc.
+      cbn [ysel snd filter is_pf fst andb] in Hc. destruct (Nat.eqb k k'); cbn [length] in Hc; lia. }
+    assert (Hm : bmention k (e_bodies e)).
+    { apply (I6 (true, k)). eapply yall_nth_in; [exact H1|]. left. reflexivity. }
+    unfold tl_inv. rewrite H3, H4, H5, H6. split; [|split; [|split; [|split; [|split; [exact I5|]]]]].
+    + apply Forall_list_set; [exact I1|]. cbn [fst snd]. eapply Hnd; exact H1.
+    + intros k' b'. rewrite (hit_list_set _ _ _ _ _ _ _ _ H1). unfold cnt_tls in *. cbn [filter is_tls]. apply I2.
+    + unfold lazy_inv in *. destruct (e_lazy e) as [lz|].
+      * destruct I3 as [Hn Hc]. split; [exact Hn|]. intros k'. rewrite cnt_ldrop_cons_drop.
+        change (cnt_lazy k' (LDropLazy k :: inits e)) with (cnt_lazy k' (inits e)).
+        rewrite Hc. specialize (Hp k'). lia.
+      * intros k'. specialize (I3 k'). rewrite cnt_ldrop_cons_drop.
+        change (cnt_lazy k' (LDropLazy k :: inits e)) with (cnt_lazy k' (inits e)).
+        specialize (Hp k'). lia.
+    + unfold lazy_inv1 in *. intros k' Hk'. specialize (I4 k' Hk'). destruct (e_lazy e) as [lz|].
+      * rewrite cnt_ldrop_cons_drop. destruct (Nat.eqb_spec k k') as [->|Hne]; [contradiction|exact I4].
+      * exact I4.
+    + intros z Hz. destruct (yall_list_set_in _ _ _ _ z H1 Hz) as [Hz'|Hz']; [apply I6, Hz'|].
+      apply I6. eapply yall_nth_in; [exact H1|]. right. exact Hz'.
+Qed.
+
+Theorem exec_micro_inv e me m :
+  ykey m = [] -> tl_inv e -> tl_inv (res_exec (exec_micro e me m)).
+Proof. intros Hy. apply tstep_inv, exec_micro_tstep, Hy. Qed.
+
+(* taking a micro-operation other than MLazyGetY / MLazyFinishY off the continuation *)
+Lemma pop_veq e me t m rest :
+  nth_error (e_threads e) me = Some t -> t_cont t = m :: rest -> ykey m = [] ->
+  veq e (upd_thread e me (fun t => th_set_cont t rest)).
+Proof.
+  intros Ht Hc Hy. unfold upd_thread, list_upd. rewrite Ht. apply veq_set_threads.
+  rewrite map_list_set. apply list_set_same. rewrite nth_error_map, Ht. cbn [option_map].
+  f_equal. unfold bt, th_set_cont. cbn [t_body t_tls t_cont]. rewrite Hc.
+  change (ykeys (m :: rest)) with (ykey m ++ ykeys rest). rewrite Hy. reflexivity.
+Qed.
+
+Lemma ykey_cases m :
+  ykey m = [] \/ (exists k, m = MLazyGetY k) \/ (exists k ci, m = MLazyFinishY k ci).
+Proof. destruct m; try (left; reflexivity); right; [left|right]; eauto. Qed.
+
+(* one step of Scheduler::run: the head of the active thread's continuation is
+   taken off and executed *)
+Theorem step_inv e me t m rest :
+  nth_error (e_threads e) me = Some t -> t_cont t = m :: rest -> tl_inv e ->
+  tl_inv (res_exec (exec_micro (upd_thread e me (fun t => th_set_cont t rest)) me m)).
+Proof.
+  intros Ht Hc Hi. destruct (ykey_cases m) as [Hy|[(k & ->)|(k & ci & ->)]].
+  - apply exec_micro_inv; [exact Hy|]. eapply veq_inv; [eapply pop_veq; eassumption|exact Hi].
+  - eapply ystep_inv; [eapply getY_ystep; eassumption|exact Hi].
+  - eapply ystep_inv; [eapply finY_ystep; eassumption|exact Hi].
+Qed.
 
 Theorem steps_inv e e' : steps e e' -> tl_inv e -> tl_inv e'.
 Proof.
   intros H. induction H as [e|e me t m rest e1 e2 Ha Ht Hc Hx Hs IH]; intros Hi; [exact Hi|].
-  apply IH. pose proof (exec_micro_inv (upd_thread e me (fun t => th_set_cont t rest)) me m) as Hm.
-  rewrite Hx in Hm. apply Hm. eapply veq_inv; [apply pop_veq|exact Hi].
+  apply IH. pose proof (step_inv e me t m rest Ht Hc Hi) as Hm.
+  rewrite Hx in Hm. exact Hm.
 Qed.
 
 Theorem run_inv : forall fuel e, tl_inv e -> tl_inv (fst (run fuel e)).
 Proof.
   induction fuel as [|fuel IH]; intros e Hi; cbn [run]; [exact Hi|].
   destruct (e_active e) as [me|]; [|exact Hi].
-  destruct (nth_error (e_threads e) me) as [t|]; [|exact Hi].
-  destruct (t_cont t) as [|m rest]; [exact Hi|].
-  pose proof (exec_micro_inv (upd_thread e me (fun t => th_set_cont t rest)) me m
-                (veq_inv _ _ (pop_veq e me rest) Hi)) as Hm.
+  destruct (nth_error (e_threads e) me) as [t|] eqn:Ht; [|exact Hi].
+  destruct (t_cont t) as [|m rest] eqn:Hc; [exact Hi|].
+  pose proof (step_inv e me t m rest Ht Hc Hi) as Hm.
   destruct (exec_micro _ me m) as [e2|e2 pn]; cbn [res_exec fst] in *; [apply IH|]; exact Hm.
+Qed.
+
+(* ---- the expanded program: the only lazy-static micro-operation with a
+   yielding initialiser is MLazyGetY 2 ---- *)
+Lemma expand_ykeys b pc i x : In x (ykeys (expand b pc i)) -> x = (false, 2).
+Proof.
+  destruct i; cbn [expand]; try (intros []; fail);
+    try (cbn [ykeys flat_map ykey app]; intros H; destruct H; fail).
+  destruct (Nat.eqb_spec k 2) as [->|Hne]; cbn [ykeys flat_map ykey app]; intros H.
+  - destruct H as [<-|[]]. reflexivity.
+  - destruct H.
+Qed.
+
+Lemma expand_body_ykeys b x : forall l pc, In x (ykeys (expand_body_from b pc l)) -> x = (false, 2).
+Proof.
+  induction l as [|i l IH]; intros pc H; cbn [expand_body_from] in H; [destruct H|].
+  change (ykeys (?a :: ?c)) with (ykey a ++ ykeys c) in H. cbn [ykey app] in H.
+  rewrite ykeys_app in H. apply in_app_or in H. destruct H as [H|H]; [eapply expand_ykeys; exact H|eapply IH; exact H].
+Qed.
+
+Lemma exit_seq_ykeys b : ykeys (exit_seq b) = [].
+Proof. destruct b; reflexivity. Qed.
+
+Lemma expand_prog_ykeys p c x : In c (expand_prog p) -> In x (ykeys c) -> x = (false, 2).
+Proof.
+  intros Hc Hx. apply In_nth_error in Hc. destruct Hc as [b Hb].
+  unfold expand_prog in Hb. rewrite nth_error_mapi in Hb.
+  destruct (nth_error (p_bodies p) b) as [body|]; [|discriminate Hb].
+  cbn [option_map] in Hb. injection Hb as <-.
+  rewrite ykeys_app, exit_seq_ykeys, app_nil_r in Hx. eapply expand_body_ykeys. exact Hx.
+Qed.
+
+Lemma expand_prog_bmention p k : bmention k (expand_prog p) -> k = 2.
+Proof.
+  intros (c & x & Hc & Hx & <-). rewrite (expand_prog_ykeys p c x Hc Hx). reflexivity.
 Qed.
 
 Lemma init_exec_inv p pa : tl_inv (init_exec p pa).
 Proof.
-  unfold tl_inv, tsig, inits, init_exec. cbn [e_threads e_log e_lazy map filter lazy_inv].
-  split; [repeat constructor|]. split.
+  assert (Hm : forall x, In x (ykeys (nth 0 (expand_prog p) [])) ->
+                 x = (false, 2) /\ bmention (snd x) (expand_prog p)).
+  { intros x Hx. destruct (nth_in_or_default 0 (expand_prog p) []) as [Hin|Hd].
+    - split; [eapply expand_prog_ykeys; eassumption|]. exists (nth 0 (expand_prog p) []), x. auto.
+    - rewrite Hd in Hx. destruct Hx. }
+  unfold tl_inv, tsig, inits, init_exec. cbn [e_threads e_log e_lazy e_bodies map filter lazy_inv].
+  split; [repeat constructor|]. split; [|split; [|split; [|split]]].
   - intros k b. unfold cnt_tls, hit, bt. cbn. rewrite andb_false_r. reflexivity.
-  - split; [constructor|]. intros k. reflexivity.
+  - split; [constructor|]. intros k. unfold pendf. rewrite filter_pf_nofin; [reflexivity|].
+    intros x Hx. unfold yall in Hx. cbn [flat_map ysel bt snd thread_new t_cont] in Hx.
+    rewrite app_nil_r in Hx. destruct (Hm x Hx) as [-> _]. reflexivity.
+  - intros k Hk. reflexivity.
+  - intros c x Hc Hx. rewrite (expand_prog_ykeys p c x Hc Hx). reflexivity.
+  - intros x Hx. unfold yall in Hx. cbn [flat_map ysel bt snd thread_new t_cont] in Hx.
+    rewrite app_nil_r in Hx. apply (Hm x Hx).
 Qed.
 
 Corollary run_init_inv fuel p pa : tl_inv (fst (run fuel (init_exec p pa))).
@@ -843,7 +1451,7 @@ Proof.
   cbv zeta. intros Hnd Hin. destruct (run_init_inv fuel p pa) as (_ & I2 & _).
   rewrite <- cnt_tls_inits, I2. rewrite <- map_fst_tsig in Hnd.
   assert (Hb : In (bt t) (tsig (fst (run fuel (init_exec p pa))))) by (unfold tsig; apply in_map; exact Hin).
-  exact (filter_key_exact _ (fun y => existsb (Nat.eqb k) (snd y)) (bt t) _ Hnd Hb).
+  exact (filter_key_exact _ (fun y => existsb (Nat.eqb k) (fst (snd y))) (bt t) _ Hnd Hb).
 Qed.
 
 (* tls_init_once: at most one LInitTls k b in the log of a run in which no
@@ -854,7 +1462,7 @@ Theorem tls_init_once fuel p pa k b :
 Proof.
   cbv zeta. intros Hnd. destruct (run_init_inv fuel p pa) as (_ & I2 & _).
   rewrite <- cnt_tls_inits, I2. rewrite <- map_fst_tsig in Hnd.
-  exact (filter_key_le1 _ (fun y => existsb (Nat.eqb k) (snd y)) b _ Hnd).
+  exact (filter_key_le1 _ (fun y => existsb (Nat.eqb k) (fst (snd y))) b _ Hnd).
 Qed.
 
 (* "occurs at most once", positionally *)
@@ -904,43 +1512,182 @@ Proof. exists 200. vm_compute. split; reflexivity. Qed.
 (* 5. Lazy statics                                                     *)
 (* ================================================================== *)
 
-(* B.2: the registry never holds a key twice *)
+(* B.2: the registry never holds a key twice: a lazy static is REGISTERED at
+   most once per execution (all threads get the same instance), also when its
+   initialiser ran more than once *)
 Theorem lazy_nodup_inv e lz : tl_inv e -> e_lazy e = Some lz -> NoDup (map fst lz).
-Proof. intros (_ & _ & I3) Hl. rewrite Hl in I3. exact (proj1 I3). Qed.
+Proof. intros (_ & _ & I3 & _) Hl. rewrite Hl in I3. exact (proj1 I3). Qed.
 
 Theorem run_lazy_nodup fuel p pa lz :
   e_lazy (fst (run fuel (init_exec p pa))) = Some lz -> NoDup (map fst lz).
 Proof. apply lazy_nodup_inv, run_init_inv. Qed.
 
+Corollary lazy_registered_once fuel p pa lz :
+  e_lazy (fst (run fuel (init_exec p pa))) = Some lz -> NoDup (map fst lz).
+Proof. apply run_lazy_nodup. Qed.
+
+(* the expanded program is never changed *)
+Lemma tstep_bodies e e' : tstep e e' -> e_bodies e' = e_bodies e.
+Proof.
+  intros H. destruct H as [(_ & _ & _ & Hv)|b _ _ _ H4|i b l y k _ _ _ _ _ H6|lz k x _ _ _ _ _ H6|lz _ _ _ _ H5];
+    assumption.
+Qed.
+
+Lemma ystep_bodies e e' : ystep e e' -> e_bodies e' = e_bodies e.
+Proof.
+  intros H. destruct H as [i b l k y _ _ _ _ H5|i b l k y _ _ _ _ H5
+                          |i b l k y lz x _ _ _ _ _ _ H7|i b l k y _ _ _ _ _ H6]; assumption.
+Qed.
+
+Lemma step_bodies e me t m rest :
+  nth_error (e_threads e) me = Some t -> t_cont t = m :: rest ->
+  e_bodies (res_exec (exec_micro (upd_thread e me (fun t => th_set_cont t rest)) me m)) = e_bodies e.
+Proof.
+  intros Ht Hc. destruct (ykey_cases m) as [Hy|[(k & ->)|(k & ci & ->)]].
+  - rewrite (tstep_bodies _ _ (exec_micro_tstep _ me m Hy)). reflexivity.
+  - apply ystep_bodies. eapply getY_ystep; eassumption.
+  - apply ystep_bodies. eapply finY_ystep; eassumption.
+Qed.
+
+Lemma run_bodies : forall fuel e, e_bodies (fst (run fuel e)) = e_bodies e.
+Proof.
+  induction fuel as [|fuel IH]; intros e; cbn [run]; [reflexivity|].
+  destruct (e_active e) as [me|]; [|reflexivity].
+  destruct (nth_error (e_threads e) me) as [t|] eqn:Ht; [|reflexivity].
+  destruct (t_cont t) as [|m rest] eqn:Hc; [reflexivity|].
+  pose proof (step_bodies e me t m rest Ht Hc) as Hm.
+  destruct (exec_micro _ me m) as [e2|e2 pn]; cbn [res_exec fst] in *; [rewrite IH|]; exact Hm.
+Qed.
+
+Lemma run_init_bodies fuel p pa : e_bodies (fst (run fuel (init_exec p pa))) = expand_prog p.
+Proof. rewrite run_bodies. reflexivity. Qed.
+
+(* ---- the balance, for every key ----
+   while the registry is alive:
+     #LInitLazy k = [k registered] + #LDropLazy k + #initialisers of k in flight
+   i.e. every value built by an initialiser is the registered one, or has been
+   dropped (its thread lost the race), or is still held by a thread between
+   its MLazyGetY and its MLazyFinishY *)
+Theorem lazy_balance e lz k : tl_inv e -> e_lazy e = Some lz ->
+  cnt_lazy k (e_log e) = reg k lz + cnt_ldrop k (e_log e) + pendf k (tsig e).
+Proof.
+  intros (_ & _ & I3 & _) Hl. rewrite Hl in I3. rewrite <- cnt_lazy_inits, <- cnt_ldrop_inits.
+  apply (proj2 I3).
+Qed.
+
+Theorem run_lazy_balance fuel p pa lz k :
+  let e := fst (run fuel (init_exec p pa)) in
+  e_lazy e = Some lz ->
+  cnt_lazy k (e_log e) = reg k lz + cnt_ldrop k (e_log e) + pendf k (tsig e).
+Proof. cbv zeta. apply lazy_balance, run_init_inv. Qed.
+
+(* after the shutdown (which drops the registered values of the keys below 8)
+   every value built is dropped or still in flight; a thread that finishes its
+   initialiser after the shutdown drops its value while it unwinds *)
+Theorem lazy_balance_shut e k : tl_inv e -> e_lazy e = None -> k < 8 ->
+  cnt_lazy k (e_log e) = cnt_ldrop k (e_log e) + pendf k (tsig e).
+Proof.
+  intros (_ & _ & I3 & _) Hl Hk. rewrite Hl in I3. rewrite <- cnt_lazy_inits, <- cnt_ldrop_inits.
+  apply (I3 k), Hk.
+Qed.
+
+Theorem run_lazy_balance_shut fuel p pa k :
+  let e := fst (run fuel (init_exec p pa)) in
+  e_lazy e = None -> k < 8 ->
+  cnt_lazy k (e_log e) = cnt_ldrop k (e_log e) + pendf k (tsig e).
+Proof. cbv zeta. apply lazy_balance_shut, run_init_inv. Qed.
+
+Lemma pendf_no_conts e k : Forall (fun t => t_cont t = []) (e_threads e) -> pendf k (tsig e) = 0.
+Proof.
+  intros H. apply pendf_zero. intros x Hx. exfalso. unfold yall, tsig in Hx.
+  apply in_flat_map in Hx. destruct Hx as (v & Hv & Hx). apply in_map_iff in Hv.
+  destruct Hv as (t & <- & Ht). rewrite Forall_forall in H. unfold ysel, bt in Hx. cbn [snd] in Hx.
+  rewrite (H t Ht) in Hx. destruct Hx.
+Qed.
+
+(* when all continuations are empty (all threads are done), initialisations
+   and drops balance exactly: no value is leaked, none is dropped twice *)
+Corollary run_lazy_all_dropped fuel p pa k :
+  let e := fst (run fuel (init_exec p pa)) in
+  e_lazy e = None -> k < 8 -> Forall (fun t => t_cont t = []) (e_threads e) ->
+  cnt_lazy k (e_log e) = cnt_ldrop k (e_log e).
+Proof.
+  cbv zeta. intros Hl Hk Hc. rewrite (run_lazy_balance_shut fuel p pa k Hl Hk), (pendf_no_conts _ k Hc). lia.
+Qed.
+
+(* ---- the keys without yielding initialiser ---- *)
 (* while the registry is alive the log has exactly one LInitLazy k per
    registered key; after the shutdown still at most one *)
+Theorem lazy_count_plain e lz k : tl_inv e -> ~ bmention k (e_bodies e) -> e_lazy e = Some lz ->
+  cnt_lazy k (e_log e) = if existsb (Nat.eqb k) (map fst lz) then 1 else 0.
+Proof.
+  intros (_ & _ & I3 & I4 & _ & I6) Hk Hl. rewrite Hl in I3, I4. rewrite <- cnt_lazy_inits.
+  rewrite (proj2 I3 k), (I4 k Hk), (pendf_zero k (tsig e)); [unfold reg; lia|].
+  intros x Hx He. apply Hk. rewrite <- He. apply I6, Hx.
+Qed.
+
+Lemma lazy_count_le1 e k : tl_inv e -> ~ bmention k (e_bodies e) -> cnt_lazy k (e_log e) <= 1.
+Proof.
+  intros Hi Hk. destruct (e_lazy e) as [lz|] eqn:Hl.
+  - rewrite (lazy_count_plain e lz k Hi Hk Hl). destruct (existsb _ _); lia.
+  - destruct Hi as (_ & _ & _ & I4 & _). rewrite Hl in I4. rewrite <- cnt_lazy_inits. apply I4, Hk.
+Qed.
+
+Lemma run_not_mentioned fuel p pa k :
+  k <> 2 -> ~ bmention k (e_bodies (fst (run fuel (init_exec p pa)))).
+Proof. intros Hk Hm. rewrite run_init_bodies in Hm. apply Hk. eapply expand_prog_bmention. exact Hm. Qed.
+
 Theorem run_lazy_count fuel p pa lz k :
+  k <> 2 ->
   e_lazy (fst (run fuel (init_exec p pa))) = Some lz ->
   cnt_lazy k (e_log (fst (run fuel (init_exec p pa)))) =
   if existsb (Nat.eqb k) (map fst lz) then 1 else 0.
 Proof.
-  intros Hl. destruct (run_init_inv fuel p pa) as (_ & _ & I3). rewrite Hl in I3.
-  rewrite <- cnt_lazy_inits. apply (proj2 I3).
+  intros Hk Hl. apply lazy_count_plain; [apply run_init_inv|apply run_not_mentioned, Hk|exact Hl].
 Qed.
 
-Lemma lazy_count_le1 e k : tl_inv e -> cnt_lazy k (e_log e) <= 1.
-Proof.
-  intros (_ & _ & I3). rewrite <- cnt_lazy_inits. destruct (e_lazy e) as [lz|]; cbn [lazy_inv] in I3.
-  - destruct I3 as [_ Hc]. rewrite Hc. destruct (existsb _ _); lia.
-  - apply I3.
-Qed.
-
+(* a lazy static whose initialiser has no scheduling point (in the programs of
+   Check.expand: every key but 2) is initialised at most once per execution *)
 Theorem lazy_init_once fuel p pa k :
-  cnt_lazy k (e_log (fst (run fuel (init_exec p pa)))) <= 1.
-Proof. apply lazy_count_le1, run_init_inv. Qed.
+  k <> 2 -> cnt_lazy k (e_log (fst (run fuel (init_exec p pa)))) <= 1.
+Proof. intros Hk. apply lazy_count_le1; [apply run_init_inv|apply run_not_mentioned, Hk]. Qed.
 
 Corollary lazy_init_once_pos fuel p pa k i j :
   let e := fst (run fuel (init_exec p pa)) in
+  k <> 2 ->
   nth_error (e_log e) i = Some (LInitLazy k) -> nth_error (e_log e) j = Some (LInitLazy k) -> i = j.
 Proof.
-  cbv zeta. intros Hi Hj. pose proof (lazy_init_once fuel p pa k) as Hle.
+  cbv zeta. intros Hk Hi Hj. pose proof (lazy_init_once fuel p pa k Hk) as Hle.
   eapply (filter_le1_unique _ (is_lazy k) _ Hle); try eassumption; cbn [is_lazy]; apply Nat.eqb_refl.
 Qed.
+
+(* the statement without the side condition is false: the initialiser of lazy
+   static 2 yields, loom runs it outside the execution lock, and a second
+   thread that finds the static unregistered runs it too.  Both initialisations
+   are logged; the loser's value is dropped (the first LDropLazy 2) before the
+   shutdown drops the registered one (the last LDropLazy 2); both threads read
+   the same instance.  This is the ONLY iteration of the exploration: the
+   schedule in which main registers the static before thread 1 looks is never
+   explored (Lazy::get is no branch point). *)
+Definition p_lazy_y : prog :=
+  mkProg (mkConfig 5 1000 None None None false) [] [[ISpawn 1; ILazyGet 2; IJoin 1]; [ILazyGet 2]].
+
+Definition lazy_lines (l : list logline) : list logline :=
+  filter (fun x => match x with
+                   | LInitLazy _ | LDropLazy _ | LOp _ _ (RVal _) => true
+                   | _ => false
+                   end) l.
+
+Lemma lazy_yielding_init_runs_twice :
+  map (fun it => (lazy_lines (ir_log it), ir_result it)) (fst (fst (check 100 1000 p_lazy_y))) =
+    [([LInitLazy 2; LInitLazy 2; LOp 0 1 (RVal 43); LDropLazy 2; LOp 1 0 (RVal 43); LDropLazy 2],
+      IterDone)] /\
+  snd (fst (check 100 1000 p_lazy_y)) = RunOk /\
+  (let r := run 1000 (init_exec p_lazy_y (initial_path (p_cfg p_lazy_y))) in
+   cnt_lazy 2 (e_log (fst r)) = 2 /\ cnt_ldrop 2 (e_log (fst r)) = 2 /\ snd r = IterDone /\
+   e_lazy (fst r) = None /\ forallb (fun t => match t_cont t with [] => true | _ => false end)
+                                    (e_threads (fst r)) = true).
+Proof. vm_compute. repeat split; reflexivity. Qed.
 
 (* the registry only grows, until it is shut down; then it stays shut down *)
 Definition lazy_ext (e e' : exec) : Prop :=
@@ -963,19 +1710,47 @@ Proof.
   - intros ->. auto.
 Qed.
 
+Lemma lazy_ext_eq e e' : e_lazy e' = e_lazy e -> lazy_ext e e'.
+Proof. intros H. unfold lazy_ext. rewrite H. exact (lazy_ext_refl e). Qed.
+
 Lemma tstep_lazy_ext e e' : tstep e e' -> lazy_ext e e'.
 Proof.
-  intros H. unfold lazy_ext.
-  destruct H as [(_ & _ & Hv)|b _ _ H3|i b l k _ _ _ _ H5|lz k x H1 _ H3 _ _|H1 _ _].
-  - rewrite Hv. apply lazy_ext_refl.
-  - rewrite H3. apply lazy_ext_refl.
-  - rewrite H5. apply lazy_ext_refl.
-  - rewrite H1. right. eauto.
-  - destruct (e_lazy e); auto.
+  intros H.
+  destruct H as [(_ & _ & Hv & _)|b _ _ H3 _|i b l y k _ _ _ _ H5 _|lz k x H1 _ H3 _ _ _|lz H1 H2 _ _ _].
+  - apply lazy_ext_eq, Hv.
+  - apply lazy_ext_eq, H3.
+  - apply lazy_ext_eq, H5.
+  - unfold lazy_ext. rewrite H1. right. eauto.
+  - unfold lazy_ext. rewrite H1. left. exact H2.
+Qed.
+
+(* MLazyGetY never changes the registry; MLazyFinishY extends it or leaves it *)
+Lemma getY_lazy e me k : e_lazy (res_exec (exec_micro e me (MLazyGetY k))) = e_lazy e.
+Proof.
+  destruct (e_lazy e) as [lz|] eqn:Hl.
+  - destruct (find (fun x => Nat.eqb (fst x) k) lz) as [x|] eqn:Hf.
+    + cbn [exec_micro]. rewrite Hl, Hf. cbn [res_exec]. exact Hl.
+    + destruct (getY_init_ok e me k lz Hl Hf) as (e1 & ci & -> & (_ & _ & V3 & _)). cbn [res_exec].
+      change (e_lazy (push_cont e1 me [MYield; MLazyFinishY k ci])) with (e_lazy e1). rewrite V3. exact Hl.
+  - cbn [exec_micro]. rewrite Hl. cbn [res_exec]. exact Hl.
+Qed.
+
+Lemma finY_lazy_ext e me k ci : lazy_ext e (res_exec (exec_micro e me (MLazyFinishY k ci))).
+Proof.
+  unfold lazy_ext. cbn [exec_micro]. destruct (e_lazy e) as [lz|] eqn:Hl.
+  - destruct (find (fun x => Nat.eqb (fst x) k) lz) as [x|]; cbn [res_exec]; right.
+    + exists []. rewrite app_nil_r. exact Hl.
+    + eexists. reflexivity.
+  - cbn [res_exec]. exact Hl.
 Qed.
 
 Theorem exec_micro_lazy_ext e me m : lazy_ext e (res_exec (exec_micro e me m)).
-Proof. apply tstep_lazy_ext, exec_micro_tstep. Qed.
+Proof.
+  destruct (ykey_cases m) as [Hy|[(k & ->)|(k & ci & ->)]].
+  - apply tstep_lazy_ext, exec_micro_tstep, Hy.
+  - apply lazy_ext_eq, getY_lazy.
+  - apply finY_lazy_ext.
+Qed.
 
 (* once None, None under every micro-step *)
 Theorem lazy_none_stays e me m :
@@ -994,24 +1769,41 @@ Theorem steps_lazy_none e e' : steps e e' -> e_lazy e = None -> e_lazy e' = None
 Proof. intros Hs Hl. pose proof (steps_lazy_ext e e' Hs) as H. unfold lazy_ext in H. rewrite Hl in H. exact H. Qed.
 
 (* every later access fails: on the state reached and on that state with the
-   accessing thread's continuation popped (where Check.run executes it) *)
+   accessing thread's continuation popped (where Check.run executes it).  An
+   access MLazyGet k or MLazyGetY k panics at once; a thread that was inside
+   the yielding initialiser when the registry was shut panics in MLazyFinishY
+   (the second look at the registry) and its value is dropped by the
+   unwinding: LDropLazy k is logged *)
 Theorem lazy_get_after_shutdown e e' b k :
   steps e e' -> e_lazy e = None ->
-  exec_micro e' b (MLazyGet k) = MFail e' PanicLazyShutdown /\
-  forall rest, exec_micro (upd_thread e' b (fun t => th_set_cont t rest)) b (MLazyGet k) =
-               MFail (upd_thread e' b (fun t => th_set_cont t rest)) PanicLazyShutdown.
+  (forall m, m = MLazyGet k \/ m = MLazyGetY k ->
+     exec_micro e' b m = MFail e' PanicLazyShutdown /\
+     forall rest, exec_micro (upd_thread e' b (fun t => th_set_cont t rest)) b m =
+                  MFail (upd_thread e' b (fun t => th_set_cont t rest)) PanicLazyShutdown) /\
+  (forall ci,
+     exec_micro e' b (MLazyFinishY k ci) =
+       MFail (ex_set_log e' (LDropLazy k :: e_log e')) PanicLazyShutdown /\
+     forall rest, let e1 := upd_thread e' b (fun t => th_set_cont t rest) in
+                  exec_micro e1 b (MLazyFinishY k ci) =
+                    MFail (ex_set_log e1 (LDropLazy k :: e_log e1)) PanicLazyShutdown).
 Proof.
-  intros Hs Hl. pose proof (steps_lazy_none e e' Hs Hl) as Hn.
-  split; [|intros rest]; rewrite exec_micro_lazy_get; cbn [upd_thread ex_set_threads e_lazy];
-    rewrite Hn; reflexivity.
+  intros Hs Hl. pose proof (steps_lazy_none e e' Hs Hl) as Hn. split.
+  - intros m [->| ->]; (split; [|intros rest]); cbn [exec_micro upd_thread ex_set_threads e_lazy];
+      rewrite Hn; reflexivity.
+  - intros ci. split; [|intros rest; cbv zeta]; cbn [exec_micro upd_thread ex_set_threads e_lazy];
+      rewrite Hn; reflexivity.
 Qed.
 
 Theorem lazy_drop_then_get_fails e a e1 e2 b k :
   exec_micro e a MLazyDrop = MOk e1 -> steps e1 e2 ->
-  exec_micro e2 b (MLazyGet k) = MFail e2 PanicLazyShutdown.
+  exec_micro e2 b (MLazyGet k) = MFail e2 PanicLazyShutdown /\
+  exec_micro e2 b (MLazyGetY k) = MFail e2 PanicLazyShutdown.
 Proof.
-  intros Hd Hs. apply (lazy_get_after_shutdown e1 e2 b k Hs).
-  cbn [exec_micro] in Hd. destruct (e_lazy e) as [lz|] eqn:Hl; injection Hd as <-; [reflexivity|exact Hl].
+  intros Hd Hs.
+  assert (Hl : e_lazy e1 = None).
+  { cbn [exec_micro] in Hd. destruct (e_lazy e) as [lz|] eqn:Hl; injection Hd as <-; [reflexivity|exact Hl]. }
+  destruct (lazy_get_after_shutdown e1 e2 b k Hs Hl) as [Hg _].
+  split; [apply (Hg (MLazyGet k))|apply (Hg (MLazyGetY k))]; auto.
 Qed.
 
 (* ---- initialisation happens-before every access ---- *)
@@ -1029,7 +1821,7 @@ Lemma lazy_tail_mono e me ci k : mono e (res_exec (lazy_tail e me ci k)).
 Proof. unfold lazy_tail. cbv zeta. repeat mstep. all: mclose. Qed.
 
 Lemma lazy_tail_lazy e me ci k : e_lazy (res_exec (lazy_tail e me ci k)) = e_lazy e.
-Proof. exact (proj2 (proj2 (lazy_tail_veq e me ci k))). Qed.
+Proof. exact (proj1 (proj2 (proj2 (lazy_tail_veq e me ci k)))). Qed.
 
 (* an access that finds k registered acquires the registered view *)
 Theorem lazy_get_acquires e me k lz ci sy e' :
@@ -1071,6 +1863,19 @@ Proof.
     destruct Hm as (_ & Hc & _). apply Hc.
 Qed.
 
+(* the same for the yielding initialiser: the thread that wins the race
+   registers a view that contains its clock at the registration (which is
+   after its initialiser) *)
+Theorem lazy_finish_publishes e me k ci lz e' :
+  e_lazy e = Some lz -> ~ In k (map fst lz) -> exec_micro e me (MLazyFinishY k ci) = MOk e' ->
+  exists sy, e_lazy e' = Some (lz ++ [(k, (ci, sy))]) /\ vle (caus_of e me) sy.
+Proof.
+  intros Hl Hk Hx. cbn [exec_micro] in Hx. rewrite Hl in Hx.
+  destruct (find (fun x => Nat.eqb (fst x) k) lz) as [x|] eqn:Hf.
+  - exfalso. apply Hk. eapply find_key_some. exact Hf.
+  - injection Hx as <-. eexists. split; [reflexivity|]. apply sync_store_rel. reflexivity.
+Qed.
+
 (* the global statement: a initialises lazy static k; the execution continues
    for any number of steps; b's access to k (executed on the state reached, or
    on any state with the same registry, e.g. with b's continuation popped)
@@ -1084,7 +1889,31 @@ Theorem lazy_handover_global e a k lz e1 e2 e2' b e3 :
 Proof.
   intros Hi Hl Hk Hx Hs Hz Hb Hy.
   destruct (lazy_init_publishes e a k lz e1 Hl Hk Hx) as (ci & sy & Hl1 & Hpub).
-  pose proof (exec_micro_inv e a (MLazyGet k) Hi) as Hi1. rewrite Hx in Hi1. cbn [res_exec] in Hi1.
+  pose proof (exec_micro_inv e a (MLazyGet k) eq_refl Hi) as Hi1. rewrite Hx in Hi1. cbn [res_exec] in Hi1.
+  pose proof (steps_inv e1 e2 Hs Hi1) as Hi2.
+  pose proof (steps_lazy_ext e1 e2 Hs) as He. unfold lazy_ext in He. rewrite Hl1 in He.
+  destruct He as [Hn|(ext & He)].
+  - rewrite exec_micro_lazy_get, Hz, Hn in Hy. discriminate Hy.
+  - eapply vle_trans; [exact Hpub|].
+    eapply (lazy_get_acquires e2' b k _ ci sy e3); [rewrite Hz; exact He| | |exact Hb|exact Hy].
+    + eapply lazy_nodup_inv; eassumption.
+    + apply in_or_app. left. apply in_or_app. right. left. reflexivity.
+Qed.
+
+(* and for the yielding static: the winner a registers k (MLazyFinishY); every
+   later successful read of k -- by the winner, by a loser of the race after it
+   dropped its own value, by any other thread -- acquires a's clock at the
+   registration.  [tl_inv e1]: the state after the registration satisfies the
+   invariant (true along runs: steps_inv / run_inv) *)
+Theorem lazyY_handover_global e a k ci lz e1 e2 e2' b e3 :
+  e_lazy e = Some lz -> ~ In k (map fst lz) ->
+  exec_micro e a (MLazyFinishY k ci) = MOk e1 -> tl_inv e1 -> steps e1 e2 ->
+  e_lazy e2' = e_lazy e2 -> b < length (e_threads e2') ->
+  exec_micro e2' b (MLazyGet k) = MOk e3 ->
+  vle (caus_of e a) (caus_of e3 b).
+Proof.
+  intros Hl Hk Hx Hi1 Hs Hz Hb Hy.
+  destruct (lazy_finish_publishes e a k ci lz e1 Hl Hk Hx) as (sy & Hl1 & Hpub).
   pose proof (steps_inv e1 e2 Hs Hi1) as Hi2.
   pose proof (steps_lazy_ext e1 e2 Hs) as He. unfold lazy_ext in He. rewrite Hl1 in He.
   destruct He as [Hn|(ext & He)].
@@ -1109,6 +1938,7 @@ Qed.
 
 Print Assumptions exec_micro_tstep.
 Print Assumptions exec_micro_inv.
+Print Assumptions step_inv.
 Print Assumptions run_inv.
 Print Assumptions run_tls_nodup.
 Print Assumptions run_tls_count.
@@ -1118,16 +1948,23 @@ Print Assumptions tls_init_once.
 Print Assumptions tls_init_once_pos.
 Print Assumptions tls_init_twice.
 Print Assumptions run_lazy_nodup.
+Print Assumptions lazy_registered_once.
+Print Assumptions run_lazy_balance.
+Print Assumptions run_lazy_balance_shut.
+Print Assumptions run_lazy_all_dropped.
 Print Assumptions run_lazy_count.
 Print Assumptions lazy_init_once.
 Print Assumptions lazy_init_once_pos.
+Print Assumptions lazy_yielding_init_runs_twice.
 Print Assumptions lazy_none_stays.
 Print Assumptions steps_lazy_none.
 Print Assumptions lazy_get_after_shutdown.
 Print Assumptions lazy_drop_then_get_fails.
 Print Assumptions lazy_get_acquires.
 Print Assumptions lazy_init_publishes.
+Print Assumptions lazy_finish_publishes.
 Print Assumptions lazy_handover_global.
+Print Assumptions lazyY_handover_global.
 
 (* DEVIATIONS from the requested statements
 
@@ -1156,12 +1993,42 @@ Print Assumptions lazy_handover_global.
        "at most once".
    T2  All run theorems are about [fst (run fuel (init_exec p pa))] for every
        fuel, i.e. also for the state carried by a panic (exec_micro_tstep /
-       exec_micro_inv are proved for res_exec, MOk and MFail alike).
-   T3  lazy_init_once needs no side condition.  run_lazy_count is the exact
-       form while the registry is alive.
+       exec_micro_inv / step_inv are proved for res_exec, MOk and MFail
+       alike; for MLazyGetY this needs getY_init_ok: the panicking branches of
+       the initialiser, whose state already carries LInitLazy k, are
+       unreachable).
+   T3  lazy_init_once / lazy_init_once_pos / run_lazy_count hold for the keys
+       k <> 2 only: the initialiser of lazy static 2 contains a scheduling
+       point, loom runs initialisers outside the execution lock
+       (Lazy::get: "the first thread to get there wins"), so two threads that
+       both find the static unregistered both run it.  Counterexample for
+       k = 2: lazy_yielding_init_runs_twice (computed: the only iteration of
+       [[ISpawn 1; ILazyGet 2; IJoin 1]; [ILazyGet 2]] logs LInitLazy 2 twice,
+       then LDropLazy 2 for the loser, both threads read 43, and the shutdown
+       logs the second LDropLazy 2).  What is true for EVERY key, and proved:
+         run_lazy_nodup = lazy_registered_once
+                               a static is registered at most once per
+                               execution (all threads get the same instance)
+         run_lazy_balance      while the registry is alive,
+                               #LInitLazy k = [k registered] + #LDropLazy k
+                                              + #initialisers of k in flight
+                               (pendf: MLazyFinishY k _ in a continuation)
+         run_lazy_balance_shut after the shutdown, for k < 8 (the keys that
+                               MLazyDrop logs): #LInitLazy k = #LDropLazy k
+                               + in flight
+         run_lazy_all_dropped  with all continuations empty, exactly as many
+                               drops as initialisations: no value is leaked
+                               and none is dropped twice.
+       The restriction k <> 2 comes from expand_prog_ykeys: in a program made
+       by Check.expand the only MLazyGetY is MLazyGetY 2; the general forms
+       (lazy_count_plain, lazy_count_le1) are stated with
+       ~ bmention k (e_bodies e).
    T4  lazy_none_stays is stated for res_exec (both outcomes);
-       lazy_get_after_shutdown is stated for SyncMono.steps and covers the
-       popped state on which Check.run executes the access.
+       lazy_get_after_shutdown is stated for SyncMono.steps, covers the
+       popped state on which Check.run executes the access, and covers the
+       three accesses MLazyGet k, MLazyGetY k (PanicLazyShutdown, state
+       unchanged) and MLazyFinishY k ci (PanicLazyShutdown, LDropLazy k
+       logged: the value built by the thread is dropped by the unwinding).
    T5  lazy_get_acquires has the hypotheses NoDup (map fst lz) (true along
        runs: run_lazy_nodup / lazy_nodup_inv; without it [find] may return an
        earlier entry for the same key with another view) and
@@ -1169,6 +2036,8 @@ Print Assumptions lazy_handover_global.
        for every acquire lemma of SyncFacts).  Added: lazy_init_publishes (the
        registered view contains the initialiser's clock), the registry only
        grows until shutdown (lazy_ext), and lazy_handover_global:
-       initialisation happens-before every later successful access.
+       initialisation happens-before every later successful access;
+       lazy_finish_publishes / lazyY_handover_global: the same for the
+       registration by the winner of a yielding initialiser.
    T6  Fresh-per-iteration is C17_fresh_every_iteration (not redone);
        init_exec_inv is the base case of the invariant. *)
